@@ -26,7 +26,7 @@
    Theorem compile_expr_correct_frames; whole programs (layout facts, entry stub,
    compile_program_correct_F3) are in Src/CompileCorrect3Prog.v.  No axioms. *)
 From Coq Require Import ZArith List Bool Lia.
-From NV Require Import Gen.Opcodes Verifier.Effect Src.Syntax Src.Eval Src.EvalLemmas
+From NV Require Import Gen.Opcodes Verifier.Effect Src.Syntax Src.Eval Src.EvalLemmas Src.EvalProps
   VM.ValueVM3 Src.Compile3 Src.CompileCorrect3Base.
 Import ListNotations.
 Local Open Scope Z_scope.
@@ -67,45 +67,34 @@ Definition faddr (k : nat) : nat := nth k (x_ftab X) 0%nat.
 Definition print_body : list rinstr := std_body (1%nat, lib_math_print).
 
 (* the stdlib function print and every function of the program are where the function table says,
-   and the exception table sends every address of a program function to its LABEL; RETHROW *)
+   and the exception table sends every address of a segment of a program function (the body, each
+   catch clause) to the LABEL that ends the segment *)
 Record prog_ok (prog : list rinstr) : Prop := {
   po_print : CompileCorrect3Base.code_at prog (faddr 13) print_body;
   po_fun : forall k fd, nth_error (g_funcs G) k = Some fd ->
            CompileCorrect3Base.code_at prog (faddr (nstd + k)) (compile_func FT fd);
-  po_tab : forall k fd i, nth_error (g_funcs G) k = Some fd ->
-           (faddr (nstd + k) <= i < faddr (nstd + k) + length (compile_func FT fd))%nat ->
-           hsearch (x_tab X) i 0 = (faddr (nstd + k) + length (compile_func FT fd) - 2)%nat
+  po_tab : forall k fd pre seg post i, nth_error (g_funcs G) k = Some fd ->
+           fsegs FT fd = pre ++ seg :: post ->
+           (faddr (nstd + k) + length (concat pre) <= i <
+            faddr (nstd + k) + length (concat pre) + length seg)%nat ->
+           hsearch (x_tab X) i 0 = (faddr (nstd + k) + length (concat pre) + length seg - 1)%nat
 }.
 
-(* the code sits inside one of the program's functions *)
-Definition in_fun (pc n : nat) : Prop :=
-  exists k fd, nth_error (g_funcs G) k = Some fd /\
-    (faddr (nstd + k) <= pc /\ pc + n <= faddr (nstd + k) + length (compile_func FT fd))%nat.
-
 Definition pcode_at (prog : list rinstr) (pc : nat) (c : list rinstr) : Prop :=
-  CompileCorrect3Base.code_at prog pc c /\ prog_ok prog /\ in_fun pc (length c).
+  CompileCorrect3Base.code_at prog pc c /\ prog_ok prog.
 
 Lemma pcode_at_app_l : forall prog pc c1 c2, pcode_at prog pc (c1 ++ c2) -> pcode_at prog pc c1.
-Proof.
-  intros prog pc c1 c2 (H & Hp & (k & fd & Hk & Hr)). split; [eapply CompileCorrect3Base.code_at_app_l; eauto|].
-  split; [exact Hp|]. exists k, fd. split; [exact Hk|]. rewrite app_length in Hr. lia.
-Qed.
+Proof. intros prog pc c1 c2 (H & Hp). split; [eapply CompileCorrect3Base.code_at_app_l; eauto | exact Hp]. Qed.
 
 Lemma pcode_at_app_r : forall prog pc c1 c2, pcode_at prog pc (c1 ++ c2) ->
   pcode_at prog (pc + length c1)%nat c2.
-Proof.
-  intros prog pc c1 c2 (H & Hp & (k & fd & Hk & Hr)). split; [eapply CompileCorrect3Base.code_at_app_r; eauto|].
-  split; [exact Hp|]. exists k, fd. split; [exact Hk|]. rewrite app_length in Hr. lia.
-Qed.
+Proof. intros prog pc c1 c2 (H & Hp). split; [eapply CompileCorrect3Base.code_at_app_r; eauto | exact Hp]. Qed.
 
 Lemma pcode_at_head : forall prog pc i c, pcode_at prog pc (i :: c) -> nth_error prog pc = Some i.
 Proof. intros prog pc i c (H & _). eapply CompileCorrect3Base.code_at_head; eauto. Qed.
 
 Lemma pcode_at_tail : forall prog pc i c, pcode_at prog pc (i :: c) -> pcode_at prog (S pc) c.
-Proof.
-  intros prog pc i c (H & Hp & (k & fd & Hk & Hr)). split; [eapply CompileCorrect3Base.code_at_tail; eauto|].
-  split; [exact Hp|]. exists k, fd. split; [exact Hk|]. cbn [length] in Hr. lia.
-Qed.
+Proof. intros prog pc i c (H & Hp). split; [eapply CompileCorrect3Base.code_at_tail; eauto | exact Hp]. Qed.
 
 Local Notation code_at := pcode_at.
 Local Notation code_at_app_l := pcode_at_app_l.
@@ -281,20 +270,32 @@ Definition post_ok (prog : list rinstr) (s : vstate) (pc' : nat) (m : morph) (c 
     nth_error m' c = Some (MA a) /\ MS m' st' (v_heap s') /\ ext m m' /\ v_out s' = out st' /\
     v_fr s' = v_fr s.
 
+(* the handler at H is a bare LABEL; RETHROW (a function without catch clauses, or the end of the last
+   clause) *)
+Definition is_rethrow (prog : list rinstr) (H : nat) : bool :=
+  match nth_error prog H, nth_error prog (S H) with
+  | Some i, Some j =>
+    match r_op i, r_op j with BYTECODE_LABEL, BYTECODE_RETHROW => true | _, _ => false end
+  | _, _ => false
+  end.
+
 (* an exception has been raised by an instruction at an address in [lo, hi) — the DIV/MOD handler,
    or the RETHROW of a callee re-raising at the CALL — and dispatched: ip is the handler the
-   exception table gives for that address, machine->exception is set, the frame registers are
-   otherwise unchanged and the stack has only grown (at least the faulting operands / the
-   callee's result slot are on it) *)
-Definition raises (prog : list rinstr) (s : vstate) (lo hi : nat) (st' : state) : Prop :=
-  exists s' fip, star prog s s' /\ (lo <= fip < hi)%nat /\
-    v_ip s' = hsearch (x_tab X) fip 0 /\ v_fr s' = set_exc (v_fr s) ExDivision /\
-    (exists t top, v_stk s' = t :: top ++ v_stk s) /\ v_out s' = out st'.
+   exception table gives for that address, machine->exception is set, the suspended activations are
+   unchanged, the stack has only grown, the stores are still related.  fp is the one of the start
+   state if the handler is a bare LABEL; RETHROW (a fault under a pending MARK has then been unwound
+   already); if the handler is a catch clause (CLEAR_STACK resets fp) a MARK may still be pending. *)
+Definition raises (prog : list rinstr) (s : vstate) (lo hi : nat) (m : morph) (st' : state) : Prop :=
+  exists s' fip m' fp', star prog s s' /\ (lo <= fip < hi)%nat /\
+    v_ip s' = hsearch (x_tab X) fip 0 /\ v_fr s' = set_exc (set_fp (v_fr s) fp') ExDivision /\
+    (is_rethrow prog (v_ip s') = true -> fp' = r_fp (v_fr s)) /\
+    (exists t top, v_stk s' = t :: top ++ v_stk s) /\ v_out s' = out st' /\
+    MS m' st' (v_heap s') /\ ext m m'.
 
 Definition concl (prog : list rinstr) (s : vstate) (pc n : nat) (m : morph) (r : res) (st' : state) : Prop :=
   match r with
   | ROk c => post_ok prog s (pc + n) m c st'
-  | RExc ex => ex = ExDivision /\ raises prog s pc (pc + n) st'
+  | RExc ex => ex = ExDivision /\ raises prog s pc (pc + n) m st'
   | _ => True
   end.
 
@@ -305,23 +306,33 @@ Lemma post_ok_intro : forall prog s pc' m c st' s' m' a,
   post_ok prog s pc' m c st'.
 Proof. intros. exists s', m', a. tauto. Qed.
 
-Lemma raises_weaken : forall prog s lo hi lo' hi' st', raises prog s lo hi st' ->
-  (lo' <= lo)%nat -> (hi <= hi')%nat -> raises prog s lo' hi' st'.
+Lemma set_fp_same : forall f : fregs, set_fp f (r_fp f) = f.
+Proof. intros [a b c]. reflexivity. Qed.
+
+Lemma raises_weaken : forall prog s lo hi lo' hi' m st', raises prog s lo hi m st' ->
+  (lo' <= lo)%nat -> (hi <= hi')%nat -> raises prog s lo' hi' m st'.
 Proof.
-  intros prog s lo hi lo' hi' st' (s' & fip & H1 & H2 & H3 & H4 & H5 & H6) Hl Hh.
-  exists s', fip. repeat split; auto; lia.
+  intros prog s lo hi lo' hi' m st' (s' & fip & m' & fp' & H1 & H2 & H3 & H4 & H5 & H6 & H7 & H8 & H9) Hl Hh.
+  exists s', fip, m', fp'. split; [exact H1|]. split; [lia|]. tauto.
 Qed.
 
 (* a run in front of the raising one: same registers, the stack of s on top of the stack of s0 *)
-Lemma raises_star : forall prog s0 s lo hi st', star prog s0 s ->
+Lemma raises_star : forall prog s0 s lo hi m0 m st', star prog s0 s ->
   v_fr s = v_fr s0 -> (exists pre, v_stk s = pre ++ v_stk s0) ->
-  raises prog s lo hi st' -> raises prog s0 lo hi st'.
+  raises prog s lo hi m st' -> ext m0 m -> raises prog s0 lo hi m0 st'.
 Proof.
-  intros prog s0 s lo hi st' Hs Hfr (pre & Hpre) (s' & fip & H1 & H2 & H3 & H4 & (t & top & H5) & H6).
-  exists s', fip. split; [eapply star_trans; eauto|]. split; [exact H2|]. split; [exact H3|].
-  split; [congruence|]. split; [|exact H6].
-  exists t, (top ++ pre). rewrite H5, Hpre, app_assoc. reflexivity.
+  intros prog s0 s lo hi m0 m st' Hs Hfr (pre & Hpre)
+         (s' & fip & m' & fp' & H1 & H2 & H3 & H4 & H5 & (t & top & H6) & H7 & H8 & H9) Hext.
+  exists s', fip, m', fp'. split; [eapply star_trans; eauto|]. split; [exact H2|]. split; [exact H3|].
+  split; [congruence|]. split; [rewrite <- Hfr; exact H5|]. split.
+  - exists t, (top ++ pre). rewrite H6, Hpre, app_assoc. reflexivity.
+  - split; [exact H7|]. split; [exact H8 | eapply ext_trans; eauto].
 Qed.
+
+Ltac ext_tac :=
+  first [ assumption | apply ext_refl
+        | eapply ext_trans; [eassumption | eassumption]
+        | eapply ext_trans; [eassumption | eapply ext_trans; [eassumption | eassumption]] ].
 
 Ltac stk_ext :=
   simpl;
@@ -363,7 +374,7 @@ Definition items_concl (prog : list rinstr) (s : vstate) (pc : nat) (code : list
         v_stk s' = a :: locals ++ v_stk s /\ Z.of_nat (length locals) = nb /\
         nth_error m' c = Some (MA a) /\ MS m' st' (v_heap s') /\ ext m m' /\ v_out s' = out st' /\
         v_fr s' = v_fr s
-    | RExc ex => ex = ExDivision /\ raises prog s pc (pc + length code) st'
+    | RExc ex => ex = ExDivision /\ raises prog s pc (pc + length code) m st'
     | _ => True
     end.
 
@@ -600,8 +611,7 @@ Proof.
                 (env_match_push _ _ _ _ _ _ a1 (env_match_ext _ _ _ _ _ _ _ Hem Hext1))) as Hb.
   fold cb in Hb.
   destruct r2 as [c2|ex| |]; simpl in Hb; [| inv He; simpl | inv He; exact I | inv He; exact I].
-  2:{ destruct Hb as [-> Hr]. split; [reflexivity|]. eapply raises_star; [exact Hst1 | reflexivity | stk_ext |].
-      eapply raises_weaken; [exact Hr | lia | rewrite !app_length; lia]. }
+  2:{ destruct Hb as [-> Hr]. split; [reflexivity|]. eapply raises_star; [exact Hst1 | reflexivity | stk_ext | eapply raises_weaken; [exact Hr | lia | rewrite !app_length; lia] | ext_tac]. }
   destruct Hb as (s2 & m2 & a2 & Hst2 & Hip2 & Hstk2 & Hm2 & HMS2 & Hext2 & Hout2 & Hfr2).
   destruct s2 as [ip2 stk2 h2 o2 fr2]; simpl in Hip2, Hstk2, HMS2, Hout2, Hfr2; subst ip2 stk2 fr2.
   assert (Hm1' : nth_error m2 c1 = Some (MA a1)) by (eapply ext_nth; eauto).
@@ -627,9 +637,10 @@ Proof.
         eapply finish_binop; eauto.
       * inv He. simpl in Hvm |- *. split; [reflexivity|].
         destruct (exec_binop_div _ _ _ stk _ (out st') _ _ _ _ Hop Hcop P1 P2 Hvm) as (fip & Hrange & Hs').
-        exists (ValueVM3.mkst (hsearch (x_tab X) fip 0) (a2 :: a1 :: stk) h2 (out st') (set_exc fr ExDivision)), fip.
-        split; [eapply star_trans; eauto|]. split; [lia|]. split; [reflexivity|]. split; [reflexivity|].
-        split; [exists a2, [a1]; reflexivity | reflexivity].
+        exists (ValueVM3.mkst (hsearch (x_tab X) fip 0) (a2 :: a1 :: stk) h2 (out st') (set_exc fr ExDivision)), fip, m2, (r_fp fr).
+        split; [eapply star_trans; eauto|]. split; [lia|]. split; [reflexivity|].
+        split; [simpl; rewrite set_fp_same; reflexivity|]. split; [reflexivity|].
+        split; [exists a2, [a1]; reflexivity|]. split; [reflexivity|]. split; [exact HMS2 | exact Hext].
     + rewrite (get_int_not_bool _ _ _ G1) in He. destruct op; inv He; exact I.
   - destruct (get_bool st2 c1) as [b1|] eqn:B1; destruct (get_bool st2 c2) as [b2|] eqn:B2;
       destruct op; try (inv He; exact I); try discriminate Hop.
@@ -697,8 +708,7 @@ Proof.
         rewrite (step_jump_fwd _ _ _ _ _ _ _ HJ) by (unfold len; lia).
         f_equal. f_equal. unfold len. lia.
       * eapply ext_trans; eauto.
-    + destruct Ha as [-> Hr]. split; [reflexivity|]. eapply raises_star; [exact Hj | reflexivity | stk_ext |].
-      eapply raises_weaken; [exact Hr | lia | lia].
+    + destruct Ha as [-> Hr]. split; [reflexivity|]. eapply raises_star; [exact Hj | reflexivity | stk_ext | eapply raises_weaken; [exact Hr | lia | lia] | ext_tac].
   - (* condition false: JUMPZ to b *)
     assert (Hj : star prog (mkst ip stk h o) (mkst (S (S (S (ip + length cc) + length ca))) stk h1 o1)).
     { eapply star_snoc; [exact Hst1|].
@@ -716,8 +726,7 @@ Proof.
         apply step_label. exact HL.
       * lia.
       * eapply ext_trans; eauto.
-    + destruct Hb as [-> Hr]. split; [reflexivity|]. eapply raises_star; [exact Hj | reflexivity | stk_ext |].
-      eapply raises_weaken; [exact Hr | lia | lia].
+    + destruct Hb as [-> Hr]. split; [reflexivity|]. eapply raises_star; [exact Hj | reflexivity | stk_ext | eapply raises_weaken; [exact Hr | lia | lia] | ext_tac].
 Qed.
 
 Lemma case_EAssign : forall k l rhs, expr_spec k -> expr_case_at (S k) (EAssign l rhs).
@@ -746,8 +755,7 @@ Proof.
                 (env_match_push _ _ _ _ _ _ a1 (env_match_ext _ _ _ _ _ _ _ Hem Hext1))) as Hb.
   fold cb in Hb.
   destruct r2 as [c2|ex| |]; simpl in Hb; [| inv He; simpl | inv He; exact I | inv He; exact I].
-  2:{ destruct Hb as [-> Hr]. split; [reflexivity|]. eapply raises_star; [exact Hst1 | reflexivity | stk_ext |].
-      eapply raises_weaken; [exact Hr | lia | rewrite !app_length; lia]. }
+  2:{ destruct Hb as [-> Hr]. split; [reflexivity|]. eapply raises_star; [exact Hst1 | reflexivity | stk_ext | eapply raises_weaken; [exact Hr | lia | rewrite !app_length; lia] | ext_tac]. }
   destruct Hb as (s2 & m2 & a2 & Hst2 & Hip2 & Hstk2 & Hm2 & HMS2 & Hext2 & Hout2 & Hfr2).
   destruct s2 as [ip2 stk2 h2 o2 fr2]; simpl in Hip2, Hstk2, HMS2, Hout2, Hfr2; subst ip2 stk2 fr2.
   assert (Hm1' : nth_error m2 c1 = Some (MA a1)) by (eapply ext_nth; eauto).
@@ -845,8 +853,7 @@ Proof.
     cbn [v_ip v_stk v_heap v_out v_fr ValueVM3.mkst]. split; [eapply star_trans; eauto|]. split; [rewrite app_length; lia|].
     split; [rewrite <- app_assoc; reflexivity|]. split; [rewrite app_length; cbn [length]; lia|].
     split; [exact Hm2|]. split; [exact HMS2|]. split; [eapply ext_trans; eauto|]. split; [exact Hout2 | reflexivity].
-  - destruct Ht as [-> Hr]. split; [reflexivity|]. eapply raises_star; [exact Hst1 | reflexivity | stk_ext |].
-    eapply raises_weaken; [exact Hr | lia | rewrite app_length; lia].
+  - destruct Ht as [-> Hr]. split; [reflexivity|]. eapply raises_star; [exact Hst1 | reflexivity | stk_ext | eapply raises_weaken; [exact Hr | lia | rewrite app_length; lia] | ext_tac].
 Qed.
 
 Lemma items_step : forall k, expr_spec k -> items_spec k -> items_spec_at (S k).
@@ -889,8 +896,7 @@ Proof.
         split; [rewrite Hip2, app_length; simpl; lia|].
         split; [exact Hstk2|]. split; [exact Hlen|]. split; [exact Hm2|]. split; [exact HMS2|].
         split; [eapply ext_trans; eauto|]. split; [exact Hout2 | exact Hfr2].
-      * destruct Ht as [-> Hr]. split; [reflexivity|]. eapply raises_star; [exact Hpop | reflexivity | stk_ext |].
-        eapply raises_weaken; [exact Hr | lia | rewrite app_length; simpl; lia].
+      * destruct Ht as [-> Hr]. split; [reflexivity|]. eapply raises_star; [exact Hpop | reflexivity | stk_ext | eapply raises_weaken; [exact Hr | lia | rewrite app_length; simpl; lia] | ext_tac].
 Qed.
 
 (* ---- stage 2: short-circuit operators, loops, print ------------------------------------------- *)
@@ -937,7 +943,7 @@ Proof.
     split; [congruence|]. split; [exact H4|]. split; [exact H5|]. split; [eapply ext_trans; eauto|].
     split; [exact H7 | congruence].
   - destruct Hc as [-> Hr]. split; [reflexivity|].
-    eapply raises_star; [exact Hst | exact Hfr | exists []; simpl; congruence | exact Hr].
+    eapply raises_star; [exact Hst | exact Hfr | exists []; simpl; congruence | exact Hr | exact Hext].
 Qed.
 
 (* pushing the constant of a finished loop / short-circuit form *)
@@ -1020,8 +1026,7 @@ Proof.
                   Hcb eq_refl HMS1 Hout1 (env_match_ext _ _ _ _ _ _ _ Hem Hext1)) as Hb.
     fold cb in Hb.
     destruct r2 as [c2|ex| |]; simpl in Hb; [| inv He; simpl | inv He; exact I | inv He; exact I].
-    2:{ destruct Hb as [-> Hr]. split; [reflexivity|]. eapply raises_star; [exact Hj | reflexivity | stk_ext |].
-        eapply raises_weaken; [exact Hr | lia | lia]. }
+    2:{ destruct Hb as [-> Hr]. split; [reflexivity|]. eapply raises_star; [exact Hj | reflexivity | stk_ext | eapply raises_weaken; [exact Hr | lia | lia] | ext_tac]. }
     destruct Hb as (s2 & m2 & a2 & Hst2 & Hip2 & Hstk2 & Hm2 & HMS2 & Hext2 & Hout2 & Hfr2).
     destruct s2 as [ip2 stk2 h2 o2 fr2]; simpl in Hip2, Hstk2, HMS2, Hout2, Hfr2; subst ip2 stk2 fr2.
     destruct (get_bool st2 c2) as [bv2|] eqn:Eg2; [|inv He; exact I].
@@ -1106,8 +1111,7 @@ Proof.
                   Hcb eq_refl HMS1 Hout1 (env_match_ext _ _ _ _ _ _ _ Hem Hext1)) as Hb.
     fold cb in Hb. fold p2 in Hb.
     destruct r2 as [c2|ex| |]; simpl in Hb; [| inv He; simpl | inv He; exact I | inv He; exact I].
-    2:{ destruct Hb as [-> Hr]. split; [reflexivity|]. eapply raises_star; [exact Hj | reflexivity | stk_ext |].
-        eapply raises_weaken; [exact Hr | subst p1; lia | lia]. }
+    2:{ destruct Hb as [-> Hr]. split; [reflexivity|]. eapply raises_star; [exact Hj | reflexivity | stk_ext | eapply raises_weaken; [exact Hr | subst p1; lia | lia] | ext_tac]. }
     destruct Hb as (s2 & m2 & a2 & Hst2 & Hip2 & Hstk2 & Hm2 & HMS2 & Hext2 & Hout2 & Hfr2).
     destruct s2 as [ip2 stk2 h2 o2 fr2]; simpl in Hip2, Hstk2, HMS2, Hout2, Hfr2; subst ip2 stk2 fr2.
     destruct (get_bool st2 c2) as [bv2|] eqn:Eg2; [|inv He; exact I].
@@ -1195,8 +1199,7 @@ Proof.
                   Hcb eq_refl HMS1 Hout1 Hem1) as Hb.
     fold cb in Hb. fold q in Hb.
     destruct r2 as [c2|ex| |]; simpl in Hb; [| inv He; simpl | inv He; exact I | inv He; exact I].
-    2:{ destruct Hb as [-> Hr]. split; [reflexivity|]. eapply raises_star; [exact Hj | reflexivity | stk_ext |].
-        eapply raises_weaken; [exact Hr | lia | lia]. }
+    2:{ destruct Hb as [-> Hr]. split; [reflexivity|]. eapply raises_star; [exact Hj | reflexivity | stk_ext | eapply raises_weaken; [exact Hr | lia | lia] | ext_tac]. }
     destruct Hb as (s2 & m2 & a2 & Hst2 & Hip2 & Hstk2 & Hm2 & HMS2 & Hext2 & Hout2 & Hfr2).
     destruct s2 as [ip2 stk2 h2 o2 fr2]; simpl in Hip2, Hstk2, HMS2, Hout2, Hfr2; subst ip2 stk2 fr2.
     assert (Hback : star prog (mkst (S pc) stk h o) (mkst (S pc) stk h2 o2)).
@@ -1258,8 +1261,7 @@ Proof.
                 Hcc eq_refl HMS1 Hout1 Hem1) as Hcnd.
   fold cc in Hcnd. fold q in Hcnd.
   destruct r2 as [c2|ex| |]; simpl in Hcnd; [| inv He; simpl | inv He; exact I | inv He; exact I].
-  2:{ destruct Hcnd as [-> Hr]. split; [reflexivity|]. eapply raises_star; [exact Hj | reflexivity | stk_ext |].
-      eapply raises_weaken; [exact Hr | lia | lia]. }
+  2:{ destruct Hcnd as [-> Hr]. split; [reflexivity|]. eapply raises_star; [exact Hj | reflexivity | stk_ext | eapply raises_weaken; [exact Hr | lia | lia] | ext_tac]. }
   destruct Hcnd as (s2 & m2 & a2 & Hst2 & Hip2 & Hstk2 & Hm2 & HMS2 & Hext2 & Hout2 & Hfr2).
   destruct s2 as [ip2 stk2 h2 o2 fr2]; simpl in Hip2, Hstk2, HMS2, Hout2, Hfr2; subst ip2 stk2 fr2.
   destruct (get_bool st2 c2) as [bv|] eqn:Eg; [|inv He; exact I].
@@ -1326,8 +1328,7 @@ Proof.
     exists s2, m2, a2. split; [eapply star_trans; eauto|]. split; [rewrite Hip2; lia|].
     split; [exact Hstk2|]. split; [exact Hm2|]. split; [exact HMS2|].
     split; [eapply ext_trans; eauto|]. split; [exact Hout2 | exact Hfr2].
-  - destruct Hw as [-> Hr]. split; [reflexivity|]. eapply raises_star; [exact Hpop | reflexivity | stk_ext |].
-    eapply raises_weaken; [exact Hr | lia | lia].
+  - destruct Hw as [-> Hr]. split; [reflexivity|]. eapply raises_star; [exact Hpop | reflexivity | stk_ext | eapply raises_weaken; [exact Hr | lia | lia] | ext_tac].
 Qed.
 
 End Frame.
@@ -1368,7 +1369,7 @@ Lemma step_call_frame : forall fr prog ip f args ret fpo x1 x2 x3 below h o targ
   step prog (mk ip (f :: args ++ ret :: fpo :: x1 :: x2 :: x3 :: below) h o fr) =
   SNext (mk target args h o
             {| r_fp := 0; r_exc := r_exc fr;
-               r_frames := {| f_ret := ret; f_fp := fpo; f_below := below |} :: r_frames fr |}).
+               r_frames := {| f_ret := ret; f_fp := fpo; f_below := below; f_exc := r_exc fr |} :: r_frames fr |}).
 Proof.
   intros fr prog ip f args ret fpo x1 x2 x3 below h o target H H0 Hfp.
   unfold ValueVM3.step. simpl. rewrite H. simpl. rewrite H0, zn_nonneg by lia. rewrite Nat2Z.id, Hfp.
@@ -1384,7 +1385,7 @@ Qed.
 Lemma step_ret_frame : forall prog ip res rest h o e F fs,
   nth_error prog ip = Some (ins0 BYTECODE_RET) ->
   step prog (mk ip (res :: rest) h o {| r_fp := 0; r_exc := e; r_frames := F :: fs |}) =
-  SNext (mk (f_ret F) (res :: f_below F) h o {| r_fp := f_fp F; r_exc := e; r_frames := fs |}).
+  SNext (mk (f_ret F) (res :: f_below F) h o {| r_fp := f_fp F; r_exc := f_exc F; r_frames := fs |}).
 Proof. intros. unfold ValueVM3.step. simpl. rewrite H. reflexivity. Qed.
 
 Lemma step_rethrow_frame : forall prog ip res rest h o e F fs,
@@ -1436,7 +1437,7 @@ Lemma enter_call : forall fr prog p k args stk h o ret,
   star prog (mk p (args ++ ret :: r_fp fr :: 0 :: 0 :: 0 :: stk)%nat h o (set_fp fr (length stk + 5)))
        (mk (faddr k) args ((h ++ [0]) ++ [Z.of_nat (faddr k)]) o
            {| r_fp := 0; r_exc := r_exc fr;
-              r_frames := {| f_ret := ret; f_fp := r_fp fr; f_below := stk |} :: r_frames fr |}).
+              r_frames := {| f_ret := ret; f_fp := r_fp fr; f_below := stk; f_exc := r_exc fr |} :: r_frames fr |}).
 Proof.
   intros fr prog p k args stk h o ret H1 H2 H3.
   eapply star_step; [apply step_global_vec0; exact H1|].
@@ -1447,55 +1448,63 @@ Proof.
   rewrite nth_error_app2, Nat.sub_diag by lia. reflexivity.
 Qed.
 
-(* the LABEL; RETHROW of the function a piece of code sits in *)
-Lemma handler_code : forall prog pc n, prog_ok prog -> in_fun pc n ->
-  exists H, (forall i, (pc <= i < pc + n)%nat -> hsearch (x_tab X) i 0 = H) /\
-            nth_error prog H = Some (ins0 BYTECODE_LABEL) /\
-            nth_error prog (S H) = Some (ins0 BYTECODE_RETHROW).
+Lemma step_label_op : forall fr prog ip i stk h o,
+  nth_error prog ip = Some i -> r_op i = BYTECODE_LABEL ->
+  step prog (mk ip stk h o fr) = SNext (mk (S ip) stk h o fr).
+Proof. intros fr prog ip i stk h o H Hop. unfold ValueVM3.step. simpl. rewrite H, Hop. reflexivity. Qed.
+
+Lemma step_rethrow_pending_op : forall fr prog ip i t top ret fpo x1 x2 x3 below h o,
+  nth_error prog ip = Some i -> r_op i = BYTECODE_RETHROW -> r_fp fr = (length below + 5)%nat ->
+  step prog (mk ip (t :: top ++ ret :: fpo :: x1 :: x2 :: x3 :: below) h o fr) =
+  SNext (mk (hsearch (x_tab X) (Nat.pred ret) 0) (t :: below) h o (set_fp fr fpo)).
 Proof.
-  intros prog pc n Hp (k & fd & Hk & Hr).
-  pose proof (po_fun _ Hp k fd Hk) as Hc. unfold compile_func in Hc |- *.
-  set (body := compile_body FT fd) in *.
-  exists (faddr (nstd + k) + length (compile_func FT fd) - 2)%nat. split; [|split].
-  - intros i Hi. apply (po_tab _ Hp k fd i Hk). lia.
-  - pose proof (CompileCorrect3Base.code_at_app_r _ _ _ _ (CompileCorrect3Base.code_at_tail _ _ _ _ Hc)) as H1.
-    pose proof (CompileCorrect3Base.code_at_head _ _ _ _
-                  (CompileCorrect3Base.code_at_tail _ _ _ _ (CompileCorrect3Base.code_at_tail _ _ _ _ H1))) as H2.
-    unfold compile_func. fold body. cbn [length]. rewrite app_length. cbn [length].
-    replace (faddr (nstd + k) + S (length body + 4) - 2)%nat with (S (S (S (faddr (nstd + k)) + length body))) by lia.
-    exact H2.
-  - pose proof (CompileCorrect3Base.code_at_app_r _ _ _ _ (CompileCorrect3Base.code_at_tail _ _ _ _ Hc)) as H1.
-    pose proof (CompileCorrect3Base.code_at_head _ _ _ _
-                  (CompileCorrect3Base.code_at_tail _ _ _ _ (CompileCorrect3Base.code_at_tail _ _ _ _
-                  (CompileCorrect3Base.code_at_tail _ _ _ _ H1)))) as H2.
-    unfold compile_func. fold body. cbn [length]. rewrite app_length. cbn [length].
-    replace (S (faddr (nstd + k) + S (length body + 4) - 2))%nat with (S (S (S (S (faddr (nstd + k)) + length body)))) by lia.
-    exact H2.
+  intros fr prog ip i t top ret fpo x1 x2 x3 below h o H Hop Hfp.
+  unfold ValueVM3.step. cbn [v_ip v_stk v_heap v_out v_fr ValueVM3.mkst]. rewrite H, Hop.
+  rewrite (do_ret_pending _ _ _ _ _ _ _ _ _ Hfp). reflexivity.
 Qed.
 
-(* a fault while a MARK of the running activation is pending (an argument of a call is being
-   evaluated): the function's LABEL; RETHROW unwinds the pending header and re-raises at the CALL *)
-Lemma unwind_pending : forall fr prog s pre retL stk lo hi st',
-  prog_ok prog -> in_fun lo (hi - lo) ->
-  v_stk s = pre ++ (retL :: r_fp fr :: 0 :: 0 :: 0 :: stk)%nat ->
-  v_fr s = set_fp fr (length stk + 5) ->
-  raises prog s lo hi st' ->
-  exists s'' t, star prog s s'' /\ v_ip s'' = hsearch (x_tab X) (Nat.pred retL) 0 /\
-    v_fr s'' = set_exc fr ExDivision /\ v_stk s'' = t :: stk /\ v_out s'' = out st'.
+Lemma is_rethrow_inv : forall prog H, is_rethrow prog H = true ->
+  exists i j, nth_error prog H = Some i /\ r_op i = BYTECODE_LABEL /\
+              nth_error prog (S H) = Some j /\ r_op j = BYTECODE_RETHROW.
 Proof.
-  intros fr prog s pre retL stk lo hi st' Hp Hin Hstk Hfr (s' & fip & H1 & H2 & H3 & H4 & (t & top & H5) & H6).
-  destruct (handler_code prog lo (hi - lo) Hp Hin) as (H & Hh & HL & HR).
-  rewrite (Hh fip) in H3 by lia.
-  destruct s' as [ip' stk' h' o' fr']. simpl in H3, H4, H5, H6. subst ip' fr'.
-  rewrite Hstk, app_assoc in H5. subst stk'.
-  exists (mk (hsearch (x_tab X) (Nat.pred retL) 0) (t :: stk) h' o' (set_exc fr ExDivision)), t.
-  split; [|simpl; auto].
-  eapply star_trans; [exact H1|].
-  eapply star_step; [apply step_label; exact HL|].
-  apply star_one.
-  rewrite (step_rethrow_pending (set_exc (v_fr s) ExDivision) prog (S H) t (top ++ pre) retL (r_fp fr) 0%nat 0%nat 0%nat stk h' o' HR).
-  - rewrite Hfr. unfold set_fp, set_exc. simpl. reflexivity.
-  - rewrite Hfr. reflexivity.
+  intros prog H Hr. unfold is_rethrow in Hr.
+  destruct (nth_error prog H) as [i|]; [|discriminate]. destruct (nth_error prog (S H)) as [j|]; [|discriminate].
+  exists i, j. destruct (r_op i) eqn:Ei; try discriminate. destruct (r_op j) eqn:Ej; try discriminate. auto.
+Qed.
+
+(* a fault while the MARK of a call is pending (an argument is being evaluated): if the handler is a
+   bare LABEL; RETHROW it unwinds the pending header and re-raises at the CALL; if it is a catch
+   clause the dispatched state is passed on (CLEAR_STACK will reset fp) *)
+Lemma call_arg_fault : forall fr prog s0 sm stk retL lo hi pc n m st',
+  star prog s0 sm -> v_fr s0 = fr -> v_stk s0 = stk ->
+  v_stk sm = (retL :: r_fp fr :: 0 :: 0 :: 0 :: stk)%nat -> v_fr sm = set_fp fr (length stk + 5) ->
+  (pc <= lo)%nat -> (hi <= pc + n)%nat -> (pc <= Nat.pred retL < pc + n)%nat ->
+  raises prog sm lo hi m st' -> raises prog s0 pc (pc + n) m st'.
+Proof.
+  intros fr prog s0 sm stk retL lo hi pc n m st' Hst Hfr0 Hstk0 Hstkm Hfrm Hlo Hhi Hret
+         (s' & fip & m' & fp' & H1 & H2 & H3 & H4 & H5 & (t & top & H6) & H7 & H8 & H9).
+  destruct s' as [ip' stk' h' o' fr']. simpl in H3, H4, H5, H6, H7, H8. subst stk' fr'.
+  destruct (is_rethrow prog ip') eqn:Er.
+  - specialize (H5 eq_refl). subst fp'.
+    destruct (is_rethrow_inv _ _ Er) as (i & j & Hi & Hiop & Hj & Hjop).
+    exists (mk (hsearch (x_tab X) (Nat.pred retL) 0) (t :: stk) h' o' (set_exc fr ExDivision)),
+           (Nat.pred retL), m', (r_fp fr).
+    split.
+    { eapply star_trans; [exact Hst|]. eapply star_trans; [exact H1|].
+      eapply star_step; [eapply step_label_op; eauto|]. apply star_one.
+      rewrite Hstkm.
+      rewrite (step_rethrow_pending_op _ prog (S ip') j t top retL (r_fp fr) 0%nat 0%nat 0%nat stk h' o' Hj Hjop).
+      - rewrite Hfrm. unfold set_fp, set_exc. simpl. reflexivity.
+      - rewrite Hfrm. reflexivity. }
+    split; [lia|]. split; [reflexivity|].
+    split; [simpl; rewrite Hfr0, set_fp_same; reflexivity|]. split; [intros _; rewrite Hfr0; reflexivity|].
+    split; [exists t, []; simpl; rewrite Hstk0; reflexivity|]. split; [exact H7|]. split; [exact H8 | exact H9].
+  - exists (mk ip' (t :: top ++ v_stk sm) h' o' (set_exc (set_fp (v_fr sm) fp') ExDivision)), fip, m', fp'.
+    split; [eapply star_trans; eauto|]. split; [lia|]. split; [exact H3|].
+    split; [simpl; rewrite Hfrm, Hfr0; reflexivity|].
+    split; [simpl; intros Hx; rewrite Hx in Er; discriminate|].
+    split; [exists t, (top ++ [retL; r_fp fr; 0; 0; 0]%nat); simpl; rewrite Hstkm, Hstk0, <- app_assoc; reflexivity|].
+    split; [exact H7|]. split; [exact H8 | exact H9].
 Qed.
 
 Lemma env_match_pushn : forall m e ce sc L stk pre, env_match m e ce sc L stk ->
@@ -1520,7 +1529,7 @@ Proof.
   rewrite eval_EPrint in He.
   change (compile_expr L ce (EPrint a)) with (call_code print_idx (compile_expr (L + num_frame_ptrs) ce a)) in *.
   set (ca := compile_expr (L + num_frame_ptrs) ce a) in *.
-  rewrite call_code_length. pose proof Hc as (_ & Hpo & Hin). unfold call_code in Hc.
+  rewrite call_code_length. pose proof Hc as (_ & Hpo). unfold call_code in Hc.
   pose proof (code_at_head _ _ _ _ Hc) as HLN.
   pose proof (code_at_tail _ _ _ _ Hc) as H1.
   pose proof (code_at_head _ _ _ _ H1) as HMK.
@@ -1546,16 +1555,8 @@ Proof.
   fold ca in Ha. fold q in Ha.
   destruct r1 as [c1|ex| |]; simpl in Ha; [| inv He; simpl | inv He; exact I | inv He; exact I].
   2:{ destruct Ha as [-> Hr]. split; [reflexivity|].
-      assert (Hin' : in_fun (S (S ip)) (q - S (S ip))).
-      { destruct Hin as (kf & fdf & Hkf & Hrg). exists kf, fdf. split; [exact Hkf|].
-        unfold call_code in Hrg. cbn [length] in Hrg. rewrite app_length in Hrg. cbn [length] in Hrg.
-        subst q. fold ca in Hrg. lia. }
-      destruct (unwind_pending fr prog (mk (S (S ip)) (hdr ++ stk) h (out st) fr') [] retL stk
-                  (S (S ip)) q st' Hpo Hin' eq_refl eq_refl Hr)
-        as (s'' & t & Hs'' & Hip'' & Hfr'' & Hstk'' & Hout'').
-      exists s'', (Nat.pred retL). split; [eapply star_trans; eauto|].
-      split; [subst retL q; simpl; lia|]. split; [exact Hip''|]. split; [exact Hfr''|].
-      split; [exists t, []; exact Hstk'' | exact Hout'']. }
+      eapply (call_arg_fault fr prog _ _ stk retL (S (S ip)) q ip (length ca + 6) _ _ Hmk);
+        [reflexivity | reflexivity | reflexivity | reflexivity | lia | subst q; lia | subst retL q; simpl; lia | exact Hr]. }
   destruct Ha as (s1 & m1 & a1 & Hst1 & Hip1 & Hstk1 & Hm1 & HMS1 & Hext1 & Hout1 & Hfr1).
   destruct s1 as [ip1 stk1 h1 o1 fr1]; simpl in Hip1, Hstk1, HMS1, Hout1, Hfr1; subst ip1 stk1 fr1.
   destruct (get_int st1 c1) as [z|] eqn:Eg; [|inv He; exact I].
@@ -1575,7 +1576,7 @@ Proof.
   pose proof (CompileCorrect3Base.code_at_head _ _ _ _ Hpb2) as PB2.
   pose proof (CompileCorrect3Base.code_at_head _ _ _ _ (CompileCorrect3Base.code_at_tail _ _ _ _ Hpb2)) as PB3.
   set (frc := {| r_fp := 0; r_exc := r_exc fr;
-                 r_frames := {| f_ret := retL; f_fp := r_fp fr; f_below := stk |} :: r_frames fr |}).
+                 r_frames := {| f_ret := retL; f_fp := r_fp fr; f_below := stk; f_exc := r_exc fr |} :: r_frames fr |}).
   assert (Hp3 : nth_error h3 a1 = Some z).
   { unfold h3. rewrite nth_error_app1 by (rewrite app_length; assert (a1 < length h1)%nat by (apply nth_error_Some; congruence); lia).
     rewrite nth_error_app1 by (apply nth_error_Some; congruence). exact Hp. }
@@ -1588,7 +1589,7 @@ Proof.
     eapply star_step; [eapply (step_id_local frc _ _ _ _ _ 0 0 a1); [exact PB1 | lia | reflexivity]|].
     eapply star_step; [eapply (step_build_in_print frc); [exact PB2 | exact Hp3]|].
     eapply star_step; [apply step_ret_frame; exact PB3|].
-    cbn [f_ret f_fp f_below]. rewrite fregs_eta.
+    cbn [f_ret f_fp f_below f_exc]. rewrite fregs_eta.
     apply star_one. apply step_label. exact HLB.
   - subst retL q. lia.
   - eapply ext_trans; [exact Hext1 | apply ext_snoc].
@@ -1628,7 +1629,7 @@ Definition args_concl (prog : list rinstr) (s : vstate) (pc : nat) (code : list 
       MS m' st1 (v_heap s') /\ ext m m' /\ v_out s' = out st1 /\ v_fr s' = v_fr s
   | None =>
     match r with
-    | RExc ex => ex = ExDivision /\ raises prog s pc (pc + length code) st1
+    | RExc ex => ex = ExDivision /\ raises prog s pc (pc + length code) m st1
     | _ => True
     end
   end.
@@ -1667,8 +1668,8 @@ Proof.
         split; [constructor; [exact Hm2 | eapply Forall2_ext_m; eauto]|].
         split; [exact HMS2|]. split; [eapply ext_trans; eauto|]. split; [exact Hout2 | congruence].
       * destruct Ha as [-> Hr]. split; [reflexivity|].
-        eapply raises_star; [exact Hst1 | exact Hfr1 | exists astk; exact Hstk1 |].
-        eapply raises_weaken; [exact Hr | lia | rewrite app_length; lia].
+        eapply raises_star; [exact Hst1 | exact Hfr1 | exists astk; exact Hstk1
+                            | eapply raises_weaken; [exact Hr | lia | rewrite app_length; lia] | exact Hext1].
     + inv He. simpl in Ht |- *. destruct r as [c|ex| |]; auto.
       destruct Ht as [-> Hr]. split; [reflexivity|].
       eapply raises_weaken; [exact Hr | lia | rewrite app_length; lia].
@@ -1725,7 +1726,7 @@ Definition genv_ok (m : morph) : Prop :=
 Definition body_spec (k : nat) : Prop :=
   forall kidx fd, nth_error (g_funcs G) kidx = Some fd ->
   forall cs penv st r st', bind_params (fd_params fd) cs = Some penv ->
-    eval_items genv k penv st (fd_body fd) None = (r, st') ->
+    call_body genv k penv st fd = (r, st') ->
   forall prog astk h o m e0 F fs, prog_ok prog ->
     MS m st h -> o = out st ->
     Forall2 (fun c a => nth_error m c = Some (MA a)) cs astk -> genv_ok m ->
@@ -1733,13 +1734,14 @@ Definition body_spec (k : nat) : Prop :=
     match r with
     | ROk c =>
       exists h' o' m' a,
-        star prog s0 (mk (f_ret F) (a :: f_below F) h' o' {| r_fp := f_fp F; r_exc := e0; r_frames := fs |}) /\
+        star prog s0 (mk (f_ret F) (a :: f_below F) h' o' {| r_fp := f_fp F; r_exc := f_exc F; r_frames := fs |}) /\
         nth_error m' c = Some (MA a) /\ MS m' st' h' /\ ext m m' /\ o' = out st'
     | RExc ex =>
       ex = ExDivision /\
-      exists h' t,
+      exists h' t m',
         star prog s0 (mk (hsearch (x_tab X) (Nat.pred (f_ret F)) 0) (t :: f_below F) h' (out st')
-                         {| r_fp := f_fp F; r_exc := Some ExDivision; r_frames := fs |})
+                         {| r_fp := f_fp F; r_exc := Some ExDivision; r_frames := fs |}) /\
+        MS m' st' h' /\ ext m m'
     | _ => True
     end.
 
@@ -1759,7 +1761,7 @@ Proof.
     with (call_code (Compile3.fidx FT f) (compile_args ce (L + num_frame_ptrs) args)) in *.
   rewrite Hfi in *.
   set (ca := compile_args ce (L + num_frame_ptrs) args) in *.
-  rewrite call_code_length. pose proof Hc as (_ & Hpo & Hin). unfold call_code in Hc.
+  rewrite call_code_length. pose proof Hc as (_ & Hpo). unfold call_code in Hc.
   pose proof (code_at_head _ _ _ _ Hc) as HLN.
   pose proof (code_at_tail _ _ _ _ Hc) as H1.
   pose proof (code_at_head _ _ _ _ H1) as HMK.
@@ -1777,10 +1779,6 @@ Proof.
   assert (Hmk : star prog (mk ip stk h o fr) (mk (S (S ip)) (hdr ++ stk) h o fr')).
   { eapply star_step; [apply step_line; exact HLN|]. apply star_one.
     eapply step_mark; [exact HMK | subst retL q; unfold len; lia]. }
-  assert (Hin' : in_fun (S (S ip)) (q - S (S ip))).
-  { destruct Hin as (kf & fdf & Hkf & Hrg). exists kf, fdf. split; [exact Hkf|].
-    unfold call_code in Hrg. cbn [length] in Hrg. rewrite app_length in Hrg. cbn [length] in Hrg.
-    subst q. fold ca in Hrg. lia. }
   destruct (eval_args genv k env args st) as [[ocs ra] st1] eqn:Eargs.
   pose proof (env_match_pushn _ _ _ _ _ _ hdr Hem) as Hem5.
   change (Z.of_nat (length hdr)) with num_frame_ptrs in Hem5.
@@ -1791,12 +1789,8 @@ Proof.
   2:{ inv He. simpl in Ha. destruct r as [c|ex| |]; simpl; auto.
       { exfalso. eapply eval_args_none_not_ok; eauto. }
       destruct Ha as [-> Hr]. split; [reflexivity|].
-      destruct (unwind_pending fr prog (mk (S (S ip)) (hdr ++ stk) h (out st) fr') [] retL stk
-                  (S (S ip)) q st' Hpo Hin' eq_refl eq_refl Hr)
-        as (s'' & t & Hs'' & Hip'' & Hfr'' & Hstk'' & Hout'').
-      exists s'', (Nat.pred retL). split; [eapply star_trans; eauto|].
-      split; [subst retL q; simpl; lia|]. split; [exact Hip''|]. split; [exact Hfr''|].
-      split; [exists t, []; exact Hstk'' | exact Hout'']. }
+      eapply (call_arg_fault fr prog _ _ stk retL (S (S ip)) q ip (length ca + 6) _ _ Hmk);
+        [reflexivity | reflexivity | reflexivity | reflexivity | lia | subst q; lia | subst retL q; simpl; lia | exact Hr]. }
   destruct Ha as (s1 & m1 & astk & Hst1 & Hip1 & Hstk1 & Hlen1 & HF1 & HMS1 & Hext1 & Hout1 & Hfr1).
   destruct s1 as [ip1 stk1 h1 o1 fr1]; simpl in Hip1, Hstk1, HMS1, Hout1, Hfr1; subst ip1 stk1 fr1.
   (* the callee expression: a name of a top-level function *)
@@ -1805,45 +1799,37 @@ Proof.
   pose proof (ext_nth _ _ _ _ Hext1 Hmcf) as Hmcf1.
   unfold apply_fun in He. unfold get_cell in He. rewrite (ms_fun _ _ _ HMS1 cf fd Hmcf1) in He.
   destruct (bind_params (fd_params fd) cs) as [penv|] eqn:Hb; [|inv He; exact I].
-  unfold call_body in He. rewrite app_nil_r in He.
-  assert (Hfd : In fd (g_funcs G)) by (eapply nth_error_In; eauto).
-  pose proof (funcs_ok fd Hfd) as Hfok. unfold Compile3.func_in_F in Hfok.
-  apply andb_true_iff in Hfok; destruct Hfok as [_ Hcat].
-  assert (Hc12 : fd_catches fd = [] /\ fd_catch_all fd = None).
-  { destruct (fd_catches fd); [destruct (fd_catch_all fd); [discriminate | auto] | discriminate]. }
-  destruct Hc12 as [C1 C2]. rewrite C1, C2 in He.
-  destruct (eval_items genv (S k') penv st1 (fd_body fd) None) as [rb st3] eqn:Eb.
+  rewrite app_nil_r in He.
   assert (Hg1 : genv_ok m1).
   { intros g gd Hgd. destruct Hem as (_ & _ & Hf3). destruct (Hf3 g gd Hgd) as (cg & Hl & Hm).
     exists cg. split; [exact Hl | eapply ext_nth; eauto]. }
   set (h1' := (h1 ++ [0]) ++ [Z.of_nat (faddr (nstd + kidx))]).
   assert (HMS1' : MS m1 st1 h1') by (unfold h1'; apply MS_heap_app, MS_heap_app; exact HMS1).
-  pose proof (IHb kidx fd Hk cs penv st1 rb st3 Hb Eb prog astk h1' o1 m1 (r_exc fr)
-                {| f_ret := retL; f_fp := r_fp fr; f_below := stk |} (r_frames fr) Hpo HMS1' Hout1 HF1 Hg1) as Hbody.
-  cbn [f_ret f_fp f_below] in Hbody.
+  pose proof (IHb kidx fd Hk cs penv st1 r st' Hb He prog astk h1' o1 m1 (r_exc fr)
+                {| f_ret := retL; f_fp := r_fp fr; f_below := stk; f_exc := r_exc fr |} (r_frames fr) Hpo HMS1' Hout1 HF1 Hg1) as Hbody.
+  cbn [f_ret f_fp f_below f_exc] in Hbody.
   assert (Henter : star prog (mk ip stk h o fr)
                      (mk (faddr (nstd + kidx)) astk h1' o1
                          {| r_fp := 0; r_exc := r_exc fr;
-                            r_frames := {| f_ret := retL; f_fp := r_fp fr; f_below := stk |} :: r_frames fr |})).
+                            r_frames := {| f_ret := retL; f_fp := r_fp fr; f_below := stk; f_exc := r_exc fr |} :: r_frames fr |})).
   { eapply star_trans; [exact Hmk|]. eapply star_trans; [exact Hst1|].
     apply (enter_call fr prog q (nstd + kidx) astk stk h1 o1 retL HGV HFA HCL). }
-  destruct rb as [cb|exb| |].
-  - inv He. simpl.
+  destruct r as [cb|exb| |]; try exact I.
+  - simpl.
     destruct Hbody as (h' & o' & m' & a & Hrun & Hm' & HMS' & Hext' & Ho').
     rewrite fregs_eta in Hrun.
     apply (post_ok_intro _ _ _ _ _ _ (mk (S retL) (a :: stk) h' o' fr) m' a); simpl; auto.
     + eapply star_trans; [exact Henter|]. eapply star_snoc; [exact Hrun|]. apply step_label. exact HLB.
     + subst retL q. lia.
     + eapply ext_trans; eauto.
-  - rewrite handlers_nil in He. inv He. simpl.
-    destruct Hbody as (-> & h' & t & Hrun). split; [reflexivity|].
+  - simpl.
+    destruct Hbody as (-> & h' & t & m' & Hrun & HMS' & Hext'). split; [reflexivity|].
     exists (mk (hsearch (x_tab X) (Nat.pred retL) 0) (t :: stk) h' (out st')
-               {| r_fp := r_fp fr; r_exc := Some ExDivision; r_frames := r_frames fr |}), (Nat.pred retL).
+               {| r_fp := r_fp fr; r_exc := Some ExDivision; r_frames := r_frames fr |}), (Nat.pred retL), m', (r_fp fr).
     split; [eapply star_trans; [exact Henter | exact Hrun]|].
     split; [subst retL q; simpl; lia|]. split; [reflexivity|]. split; [reflexivity|].
-    split; [exists t, []; reflexivity | reflexivity].
-  - inv He. exact I.
-  - inv He. exact I.
+    split; [reflexivity|]. split; [exists t, []; reflexivity|]. split; [reflexivity|].
+    split; [exact HMS' | eapply ext_trans; eauto].
 Qed.
 
 (* ---- the environment of a function body ---------------------------------------------------------- *)
@@ -1913,19 +1899,21 @@ Definition mkfr (e0 : option exn) (F : frame) (fs : list frame) : fregs :=
 Definition returned (prog : list rinstr) (s : vstate) (m : morph) (c : nat) (st' : state)
   (e0 : option exn) (F : frame) (fs : list frame) : Prop :=
   exists h' o' m' a,
-    star prog s (mk (f_ret F) (a :: f_below F) h' o' {| r_fp := f_fp F; r_exc := e0; r_frames := fs |}) /\
+    star prog s (mk (f_ret F) (a :: f_below F) h' o' {| r_fp := f_fp F; r_exc := f_exc F; r_frames := fs |}) /\
     nth_error m' c = Some (MA a) /\ MS m' st' h' /\ ext m m' /\ o' = out st'.
 
-Definition rethrown (prog : list rinstr) (s : vstate) (st' : state) (F : frame) (fs : list frame) : Prop :=
-  exists h' t,
+Definition rethrown (prog : list rinstr) (s : vstate) (m : morph) (st' : state) (F : frame)
+  (fs : list frame) : Prop :=
+  exists h' t m',
     star prog s (mk (hsearch (x_tab X) (Nat.pred (f_ret F)) 0) (t :: f_below F) h' (out st')
-                    {| r_fp := f_fp F; r_exc := Some ExDivision; r_frames := fs |}).
+                    {| r_fp := f_fp F; r_exc := Some ExDivision; r_frames := fs |}) /\
+    MS m' st' h' /\ ext m m'.
 
 Definition tconcl (prog : list rinstr) (s : vstate) (pc n : nat) (m : morph) (r : res) (st' : state)
   (e0 : option exn) (F : frame) (fs : list frame) : Prop :=
   match r with
   | ROk c => post_ok prog s (pc + n) m c st' \/ returned prog s m c st' e0 F fs
-  | RExc ex => ex = ExDivision /\ (raises prog s pc (pc + n) st' \/ rethrown prog s st' F fs)
+  | RExc ex => ex = ExDivision /\ (raises prog s pc (pc + n) m st' \/ rethrown prog s m st' F fs)
   | _ => True
   end.
 
@@ -1950,10 +1938,10 @@ Proof.
       split; [eapply ext_trans; eauto|]. split; [exact H7 | congruence].
     + right. exists h', o', m', a. split; [eapply star_trans; eauto|]. split; [exact H2|].
       split; [exact H3|]. split; [eapply ext_trans; eauto | exact H5].
-  - destruct H as (-> & [Hr | (h' & t & H1)]); split; auto.
-    + left. eapply raises_star; [exact Hst | exact Hfr | exists []; simpl; congruence |].
-      eapply raises_weaken; [exact Hr | lia | lia].
-    + right. exists h', t. eapply star_trans; eauto.
+  - destruct H as (-> & [Hr | (h' & t & m' & H1 & H2 & H3)]); split; auto.
+    + left. eapply raises_star; [exact Hst | exact Hfr | exists []; simpl; congruence
+                                | eapply raises_weaken; [exact Hr | lia | lia] | exact Hext].
+    + right. exists h', t, m'. split; [eapply star_trans; eauto|]. split; [exact H2 | eapply ext_trans; eauto].
 Qed.
 
 Definition tail_case (k : nat) (e : expr) : Prop :=
@@ -2062,7 +2050,7 @@ Definition titems_concl (prog : list rinstr) (s : vstate) (pc : nat) (code : lis
        nth_error m' c = Some (MA a) /\ MS m' st' (v_heap s') /\ ext m m' /\ v_out s' = out st' /\
        v_fr s' = v_fr s) \/
     returned prog s m c st' e0 F fs
-  | RExc ex => ex = ExDivision /\ (raises prog s pc (pc + length code) st' \/ rethrown prog s st' F fs)
+  | RExc ex => ex = ExDivision /\ (raises prog s pc (pc + length code) m st' \/ rethrown prog s m st' F fs)
   | _ => True
   end.
 
@@ -2081,10 +2069,10 @@ Proof.
       split; [eapply ext_trans; eauto|]. split; [exact H8 | congruence].
     + right. exists h', o', m', a. split; [eapply star_trans; eauto|]. split; [exact H2|].
       split; [exact H3|]. split; [eapply ext_trans; eauto | exact H5].
-  - destruct H as (-> & [Hr | (h' & t & H1)]); split; auto.
-    + left. eapply raises_star; [exact Hst | exact Hfr | exists pre; exact Hstk |].
-      eapply raises_weaken; [exact Hr | lia | lia].
-    + right. exists h', t. eapply star_trans; eauto.
+  - destruct H as (-> & [Hr | (h' & t & m' & H1 & H2 & H3)]); split; auto.
+    + left. eapply raises_star; [exact Hst | exact Hfr | exists pre; exact Hstk
+                                | eapply raises_weaken; [exact Hr | lia | lia] | exact Hext].
+    + right. exists h', t, m'. split; [eapply star_trans; eauto|]. split; [exact H2 | eapply ext_trans; eauto].
 Qed.
 
 Definition titems_spec (k : nat) : Prop :=
@@ -2295,7 +2283,7 @@ Proof.
   change (Compile3.compile_args_f (Compile3.cexpr FT None false) ce L args) with (compile_args ce L args) in *.
   set (v := Z.of_nat (length args)) in *.
   set (ca := compile_args ce L args) in *.
-  rewrite last_call_code_length. pose proof Hc as (_ & Hpo & Hin). unfold last_call_code in Hc.
+  rewrite last_call_code_length. pose proof Hc as (_ & Hpo). unfold last_call_code in Hc.
   pose proof (code_at_app_l _ _ _ _ Hc) as Hca.
   pose proof (code_at_app_r _ _ _ _ Hc) as H3.
   set (q := (ip + length ca)%nat) in *.
@@ -2319,20 +2307,13 @@ Proof.
   pose proof (ext_nth _ _ _ _ Hext1 Hmcf) as Hmcf1.
   unfold apply_fun in He. unfold get_cell in He. rewrite (ms_fun _ _ _ HMS1 cf fd Hmcf1) in He.
   destruct (bind_params (fd_params fd) cs) as [penv|] eqn:Hb; [|inv He; exact I].
-  unfold call_body in He. rewrite app_nil_r in He.
-  assert (Hfd : In fd (g_funcs G)) by (eapply nth_error_In; eauto).
-  pose proof (funcs_ok fd Hfd) as Hfok. unfold Compile3.func_in_F in Hfok.
-  apply andb_true_iff in Hfok; destruct Hfok as [_ Hcat].
-  assert (Hc12 : fd_catches fd = [] /\ fd_catch_all fd = None).
-  { destruct (fd_catches fd); [destruct (fd_catch_all fd); [discriminate | auto] | discriminate]. }
-  destruct Hc12 as [C1 C2]. rewrite C1, C2 in He.
-  destruct (eval_items genv (S k') penv st1 (fd_body fd) None) as [rb st3] eqn:Eb.
+  rewrite app_nil_r in He.
   assert (Hg1 : genv_ok m1).
   { intros g gd Hgd. destruct Hem as (_ & _ & Hf3). destruct (Hf3 g gd Hgd) as (cg & Hl & Hm).
     exists cg. split; [exact Hl | eapply ext_nth; eauto]. }
   set (h1' := (h1 ++ [0]) ++ [Z.of_nat (faddr (nstd + kidx'))]).
   assert (HMS1' : MS m1 st1 h1') by (unfold h1'; apply MS_heap_app, MS_heap_app; exact HMS1).
-  pose proof (IHb kidx' fd Hk' cs penv st1 rb st3 Hb Eb prog astk h1' o1 m1 e0 F fs Hpo HMS1' Hout1 HF1 Hg1) as Hbody.
+  pose proof (IHb kidx' fd Hk' cs penv st1 r st' Hb He prog astk h1' o1 m1 e0 F fs Hpo HMS1' Hout1 HF1 Hg1) as Hbody.
   cbn zeta in Hbody. fold (mkfr e0 F fs) in Hbody. fold frc in Hbody.
   assert (Henter : star prog (mk ip stk h o frc) (mk (faddr (nstd + kidx')) astk h1' o1 frc)).
   { eapply star_trans; [exact Hst1|].
@@ -2345,80 +2326,447 @@ Proof.
       + unfold v. simpl length. lia.
     - apply star_one. apply step_call_tail; [exact HCL|].
       unfold h1'. rewrite nth_error_app2, Nat.sub_diag by lia. reflexivity. }
-  destruct rb as [cb|exb| |].
-  - inv He. simpl. right.
+  destruct r as [cb|exb| |]; try exact I.
+  - simpl. right.
     destruct Hbody as (h' & o' & m' & a & Hrun & Hm' & HMS' & Hext' & Ho').
     exists h', o', m', a. split; [eapply star_trans; eauto|]. split; [exact Hm'|]. split; [exact HMS'|].
     split; [eapply ext_trans; eauto | exact Ho'].
-  - rewrite handlers_nil in He. inv He. simpl.
-    destruct Hbody as (-> & h' & t & Hrun). split; [reflexivity|]. right.
-    exists h', t. eapply star_trans; eauto.
-  - inv He. exact I.
-  - inv He. exact I.
+  - simpl.
+    destruct Hbody as (-> & h' & t & m' & Hrun & HMS' & Hext'). split; [reflexivity|]. right.
+    exists h', t, m'. split; [eapply star_trans; eauto|]. split; [exact HMS' | eapply ext_trans; eauto].
 Qed.
 
-(* one activation: FUNC_DEF; the body in tail position; LINE; RET — or the function's LABEL; RETHROW *)
-Lemma body_of_titems : forall k, titems_spec k -> body_spec k.
+(* ---- catch clauses --------------------------------------------------------------------------------- *)
+
+Lemma items_spec_mono : forall k j, (j <= k)%nat -> items_spec k -> items_spec j.
 Proof.
-  intros k IHi kidx fd Hk cs penv st r st' Hb He prog astk h o m e0 F fs Hpo HMS Hout HF Hg s0.
+  intros k j Hle H items env st last r st' He.
+  destruct r as [c|ex| |]; try (intros; exact I).
+  - refine (H items env st last (ROk c) st' _).
+    apply (eval_items_fuel_mono genv j k env st items last (ROk c) st' Hle He). discriminate.
+  - refine (H items env st last (RExc ex) st' _).
+    apply (eval_items_fuel_mono genv j k env st items last (RExc ex) st' Hle He). discriminate.
+Qed.
+
+Lemma seg_at : forall prog fa fd pre seg post,
+  CompileCorrect3Base.code_at prog fa (compile_func FT fd) -> fsegs FT fd = pre ++ seg :: post ->
+  CompileCorrect3Base.code_at prog (fa + length (concat pre))
+    (seg ++ concat post ++ [ins0 BYTECODE_RETHROW]).
+Proof.
+  intros prog fa fd pre seg post Hc Hs. unfold compile_func in Hc. rewrite Hs, concat_app in Hc.
+  cbn [concat] in Hc. rewrite <- !app_assoc in Hc.
+  apply (CompileCorrect3Base.code_at_app_r _ _ _ _ Hc).
+Qed.
+
+Lemma step_clear_stack : forall fr prog ip top astk h o,
+  nth_error prog ip = Some (ins BYTECODE_CLEAR_STACK (Z.of_nat (length astk)) 0) ->
+  step prog (mk ip (top ++ astk) h o fr) = SNext (mk (S ip) astk h o (set_fp fr 0)).
+Proof.
+  intros. unfold ValueVM3.step. cbn [v_ip v_stk v_heap v_out v_fr ValueVM3.mkst]. rewrite H.
+  cbn [r_op ins r_w0]. rewrite zn_nonneg by lia. rewrite Nat2Z.id, app_length.
+  replace (Nat.leb (length astk) (length top + length astk)) with true by (symmetry; apply Nat.leb_le; lia).
+  replace (length top + length astk - length astk)%nat with (length top) by lia.
+  rewrite skipn_app, skipn_all, Nat.sub_diag. reflexivity.
+Qed.
+
+Lemma step_push_except : forall fr prog ip stk h o e,
+  nth_error prog ip = Some (ins0 BYTECODE_PUSH_EXCEPT) -> r_exc fr = Some e ->
+  step prog (mk ip stk h o fr) = SNext (mk (S ip) (length h :: stk) (h ++ [exn_no e]) o fr).
+Proof. intros. unfold ValueVM3.step. simpl. rewrite H. simpl. rewrite H0. reflexivity. Qed.
+
+Lemma step_rethrow_any : forall prog ip stk h o e F fs,
+  nth_error prog ip = Some (ins0 BYTECODE_RETHROW) ->
+  exists t, step prog (mk ip stk h o {| r_fp := 0; r_exc := e; r_frames := F :: fs |}) =
+  SNext (mk (hsearch (x_tab X) (Nat.pred (f_ret F)) 0) (t :: f_below F) h o
+            {| r_fp := f_fp F; r_exc := e; r_frames := fs |}).
+Proof.
+  intros. exists (match stk with res :: _ => res | [] => f_ret F end).
+  unfold ValueVM3.step. simpl. rewrite H. reflexivity.
+Qed.
+
+Lemma exn_match_no : forall ex, exn_eqb ExDivision ex = (exn_no ex =? 1).
+Proof. destruct ex; reflexivity. Qed.
+
+(* the clause segments that remain when the named clauses cs are still to be tried *)
+Definition tail_segs (fd : fdef) (cs : list (exn * list item)) : list (list rinstr) :=
+  map (clause_seg FT fd) cs ++
+  match fd_catch_all fd with Some b => [all_seg FT fd b] | None => [] end.
+
+Lemma bind_params_length : forall ps cs penv, bind_params ps cs = Some penv -> length cs = length ps.
+Proof.
+  induction ps as [|[[x v] t] ps IH]; intros cs penv Hb; destruct cs; simpl in Hb; try discriminate; [reflexivity|].
+  destruct (bind_params ps cs) eqn:E; [|discriminate]. simpl. f_equal. eapply IH; eauto.
+Qed.
+
+Lemma Forall2_len : forall A B (P : A -> B -> Prop) l1 l2, Forall2 P l1 l2 -> length l1 = length l2.
+Proof. intros A B P l1 l2 H. induction H; simpl; congruence. Qed.
+
+(* one clause block: CLEAR_STACK has been executed, the parameters are the stack *)
+Lemma clause_block : forall k, items_spec k ->
+  forall kidx fd, nth_error (g_funcs G) kidx = Some fd ->
+  forall j body penv st r st', (j <= k)%nat ->
+    eval_items genv j penv st body None = (r, st') ->
+    items_F lv (param_names (fd_params fd)) body = true ->
+  forall prog pc astk h o m cs0 e F fs,
+    pcode_at prog pc (clause_body FT fd body) ->
+    Compile3.func_in_F FS lv fd = true ->
+    bind_params (fd_params fd) cs0 = Some penv ->
+    Forall2 (fun c a => nth_error m c = Some (MA a)) cs0 astk -> genv_ok m ->
+    MS m st h -> o = out st ->
+    concl prog (mk pc astk h o (mkfr e F fs)) pc (length (clause_body FT fd body)) m r st'.
+Proof.
+  intros k IHi kidx fd Hk j body penv st r st' Hj He HFb prog pc astk h o m cs0 e F fs Hc Hfok Hb HF Hg HMS Hout.
+  assert (IHj : items_spec j) by (apply (items_spec_mono k); assumption).
+  assert (He' : eval genv (S j) penv st (EBlock body) = (r, st')) by (rewrite eval_EBlock; exact He).
+  pose proof (param_env_match fd cs0 penv astk m Hfok Hb HF Hg) as Hem.
+  exact (case_EBlock (mkfr e F fs) j body IHj penv st r st' He' (param_names (fd_params fd)) HFb prog 0
+           (param_env (fd_params fd) 0) pc astk h o m Hc HMS Hout Hem).
+Qed.
+
+(* the end of an activation as its caller sees it *)
+Definition act_done (prog : list rinstr) (s0 : vstate) (m : morph) (r : res) (st' : state)
+  (F : frame) (fs : list frame) : Prop :=
+  match r with
+  | ROk c =>
+    exists h' o' m' a,
+      star prog s0 (mk (f_ret F) (a :: f_below F) h' o' {| r_fp := f_fp F; r_exc := f_exc F; r_frames := fs |}) /\
+      nth_error m' c = Some (MA a) /\ MS m' st' h' /\ ext m m' /\ o' = out st'
+  | RExc ex =>
+    ex = ExDivision /\
+    exists h' t m',
+      star prog s0 (mk (hsearch (x_tab X) (Nat.pred (f_ret F)) 0) (t :: f_below F) h' (out st')
+                       {| r_fp := f_fp F; r_exc := Some ExDivision; r_frames := fs |}) /\
+      MS m' st' h' /\ ext m m'
+  | _ => True
+  end.
+
+Lemma act_done_star : forall prog s0 s1 m m1 r st' F fs,
+  star prog s0 s1 -> ext m m1 -> act_done prog s1 m1 r st' F fs -> act_done prog s0 m r st' F fs.
+Proof.
+  intros prog s0 s1 m m1 r st' F fs Hst Hext H. destruct r as [c|ex| |]; simpl in *; auto.
+  - destruct H as (h' & o' & m' & a & H1 & H2 & H3 & H4 & H5). exists h', o', m', a.
+    split; [eapply star_trans; eauto|]. split; [exact H2|]. split; [exact H3|].
+    split; [eapply ext_trans; eauto | exact H5].
+  - destruct H as (-> & h' & t & m' & H1 & H2 & H3). split; [reflexivity|]. exists h', t, m'.
+    split; [eapply star_trans; eauto|]. split; [exact H2 | eapply ext_trans; eauto].
+Qed.
+
+(* a finished clause block: RET, or the fault goes on *)
+Lemma concat_snoc_len : forall (pre : list (list rinstr)) seg,
+  length (concat (pre ++ [seg])) = (length (concat pre) + length seg)%nat.
+Proof. intros. rewrite concat_app, app_length. simpl. rewrite app_nil_r. reflexivity. Qed.
+
+Lemma seg_shape_all : forall (i r l w : rinstr) (cb : list rinstr),
+  (i :: cb ++ [r; l]) ++ concat [] ++ [w] = i :: cb ++ [r; l; w].
+Proof. intros. simpl. rewrite <- app_assoc. reflexivity. Qed.
+
+Lemma seg_shape_clause : forall (i1 i2 i3 i4 i5 r l : rinstr) (cb rest : list rinstr),
+  (i1 :: i2 :: i3 :: i4 :: i5 :: cb ++ [r; l]) ++ rest =
+  i1 :: i2 :: i3 :: i4 :: i5 :: cb ++ r :: l :: rest.
+Proof. intros. simpl. rewrite <- app_assoc. reflexivity. Qed.
+
+Lemma handlers_run : forall k, items_spec k ->
+  forall kidx fd, nth_error (g_funcs G) kidx = Some fd -> Compile3.func_in_F FS lv fd = true ->
+  forall cs pre, fsegs FT fd = pre ++ tail_segs fd cs ->
+    (forall c, In c cs -> items_F lv (param_names (fd_params fd)) (snd c) = true) ->
+    (forall b, fd_catch_all fd = Some b -> items_F lv (param_names (fd_params fd)) b = true) ->
+  forall j penv st r st', (j <= k)%nat ->
+    handlers genv j penv st ExDivision cs (fd_catch_all fd) = (r, st') ->
+  forall prog top astk h o m cs0 fp F fs, prog_ok prog ->
+    bind_params (fd_params fd) cs0 = Some penv ->
+    Forall2 (fun c a => nth_error m c = Some (MA a)) cs0 astk -> genv_ok m ->
+    MS m st h -> o = out st ->
+    (cs = [] -> fd_catch_all fd = None -> fp = 0%nat) ->
+    act_done prog (mk (faddr (nstd + kidx) + length (concat pre)) (top ++ astk) h o
+                      {| r_fp := fp; r_exc := Some ExDivision; r_frames := F :: fs |}) m r st' F fs.
+Proof.
+  intros k IHi kidx fd Hk Hfok.
+  set (fa := faddr (nstd + kidx)). set (np := length (fd_params fd)).
+  induction cs as [|[ex' body] t IHcs];
+    intros pre Hsegs Hcs Hall j penv st r st' Hj He prog top astk h o m cs0 fp F fs Hpo Hb HF Hg HMS Hout Hfp.
+  - (* no named clause left *)
+    destruct j as [|j]; [rewrite handlers_O in He; inv He; exact I|]. rewrite handlers_nil in He.
+    pose proof (po_fun _ Hpo kidx fd Hk) as Hcode. fold fa in Hcode.
+    assert (Hnp : length astk = np).
+    { rewrite <- (Forall2_len _ _ _ _ _ HF). apply (bind_params_length _ _ _ Hb). }
+    destruct (fd_catch_all fd) as [b|] eqn:Eall.
+    + unfold tail_segs in Hsegs. rewrite Eall in Hsegs. cbn [map app] in Hsegs.
+      pose proof (seg_at prog fa fd pre (all_seg FT fd b) [] Hcode Hsegs) as Hseg.
+      set (A := (fa + length (concat pre))%nat) in *.
+      unfold all_seg in Hseg. fold np in Hseg.
+      set (cb := clause_body FT fd b) in *. rewrite seg_shape_all in Hseg.
+      pose proof (CompileCorrect3Base.code_at_head _ _ _ _ Hseg) as HCS.
+      pose proof (CompileCorrect3Base.code_at_tail _ _ _ _ Hseg) as H1.
+      pose proof (CompileCorrect3Base.code_at_app_l _ _ _ _ H1) as Hcb.
+      pose proof (CompileCorrect3Base.code_at_app_r _ _ _ _ H1) as H2.
+      pose proof (CompileCorrect3Base.code_at_head _ _ _ _ H2) as HRT.
+      pose proof (CompileCorrect3Base.code_at_head _ _ _ _ (CompileCorrect3Base.code_at_tail _ _ _ _ H2)) as HLB.
+      pose proof (CompileCorrect3Base.code_at_head _ _ _ _
+                   (CompileCorrect3Base.code_at_tail _ _ _ _ (CompileCorrect3Base.code_at_tail _ _ _ _ H2))) as HRW.
+      set (frc := mkfr (Some ExDivision) F fs).
+      assert (H0 : star prog (mk A (top ++ astk) h o {| r_fp := fp; r_exc := Some ExDivision; r_frames := F :: fs |})
+                        (mk (S A) astk h o frc)).
+      { apply star_one. rewrite <- Hnp in HCS. rewrite (step_clear_stack _ prog A top astk h o HCS). reflexivity. }
+      assert (Hlenseg : length (all_seg FT fd b) = (length cb + 3)%nat).
+      { unfold all_seg. fold cb. cbn [length]. rewrite app_length. cbn [length]. lia. }
+      pose proof (clause_block k IHi kidx fd Hk j b penv st r st' ltac:(lia) He (Hall b eq_refl) prog (S A) astk h o m cs0
+                    (Some ExDivision) F fs (conj Hcb Hpo) Hfok Hb HF Hg HMS Hout) as Hx. fold cb frc in Hx.
+      destruct r as [c|ex| |]; simpl in Hx |- *; auto.
+      * destruct Hx as (s1 & m1 & a & Hst1 & Hip1 & Hstk1 & Hm1 & HMS1 & Hext1 & Hout1 & Hfr1).
+        destruct s1 as [ip1 stk1 h1 o1 fr1]; simpl in Hip1, Hstk1, HMS1, Hout1, Hfr1; subst ip1 stk1 fr1.
+        exists h1, o1, m1, a. split; [|auto].
+        eapply star_trans; [exact H0|]. eapply star_snoc; [exact Hst1|]. apply step_ret_frame. exact HRT.
+      * destruct Hx as (-> & s1 & fip & m1 & fp' & Hst1 & Hrng & Hip1 & Hfr1 & Hrt & (t0 & top' & Hstk1) & Hout1 & HMS1 & Hext1).
+        split; [reflexivity|].
+        destruct s1 as [ip1 stk1 h1 o1 fr1]; simpl in Hip1, Hstk1, Hout1, Hfr1, Hrt, HMS1; subst stk1 o1 fr1.
+        rewrite (po_tab _ Hpo kidx fd pre (all_seg FT fd b) [] fip Hk Hsegs) in Hip1
+          by (fold fa; fold A; rewrite Hlenseg; lia).
+        fold fa in Hip1. fold A in Hip1. rewrite Hlenseg in Hip1.
+        replace (A + (length cb + 3) - 1)%nat with (S (S A + length cb)) in Hip1 by lia. subst ip1.
+        assert (Hir : is_rethrow prog (S (S A + length cb)) = true).
+        { unfold is_rethrow. rewrite HLB, HRW. reflexivity. }
+        specialize (Hrt Hir). subst fp'.
+        destruct (step_rethrow_any prog (S (S (S A + length cb))) (t0 :: top' ++ astk) h1 (out st') (Some ExDivision) F fs HRW)
+          as (t1 & Hrw).
+        exists h1, t1, m1. split; [|split; [exact HMS1 | exact Hext1]].
+        eapply star_trans; [exact H0|]. eapply star_trans; [exact Hst1|].
+        eapply star_step; [apply (step_label _ prog (S (S A + length cb))); exact HLB|].
+        apply star_one. exact Hrw.
+    + inv He. unfold tail_segs in Hsegs. rewrite Eall in Hsegs. cbn [map app] in Hsegs. rewrite app_nil_r in Hsegs.
+      unfold compile_func in Hcode. rewrite Hsegs in Hcode.
+      pose proof (CompileCorrect3Base.code_at_head _ _ _ _ (CompileCorrect3Base.code_at_app_r _ _ _ _ Hcode)) as HRW.
+      rewrite (Hfp eq_refl eq_refl). simpl. split; [reflexivity|].
+      destruct (step_rethrow_any prog (fa + length (concat pre)) (top ++ astk) h (out st') (Some ExDivision) F fs HRW)
+        as (t1 & Hrw).
+      exists h, t1, m. split; [apply star_one; exact Hrw|]. split; [exact HMS | apply ext_refl].
+  - (* a named clause *)
+    destruct j as [|j]; [rewrite handlers_O in He; inv He; exact I|]. rewrite handlers_cons in He.
+    pose proof (po_fun _ Hpo kidx fd Hk) as Hcode. fold fa in Hcode.
+    assert (Hnp : length astk = np).
+    { rewrite <- (Forall2_len _ _ _ _ _ HF). apply (bind_params_length _ _ _ Hb). }
+    assert (Hsegs' : fsegs FT fd = pre ++ clause_seg FT fd (ex', body) :: tail_segs fd t) by exact Hsegs.
+    pose proof (seg_at prog fa fd pre _ _ Hcode Hsegs') as Hseg.
+    set (A := (fa + length (concat pre))%nat) in *.
+    unfold clause_seg in Hseg. cbn [fst snd] in Hseg. fold np in Hseg.
+    set (cb := clause_body FT fd body) in *. rewrite seg_shape_clause in Hseg.
+    pose proof (CompileCorrect3Base.code_at_head _ _ _ _ Hseg) as HCS.
+    pose proof (CompileCorrect3Base.code_at_tail _ _ _ _ Hseg) as T1.
+    pose proof (CompileCorrect3Base.code_at_head _ _ _ _ T1) as HIN.
+    pose proof (CompileCorrect3Base.code_at_tail _ _ _ _ T1) as T2.
+    pose proof (CompileCorrect3Base.code_at_head _ _ _ _ T2) as HPE.
+    pose proof (CompileCorrect3Base.code_at_tail _ _ _ _ T2) as T3.
+    pose proof (CompileCorrect3Base.code_at_head _ _ _ _ T3) as HEQ.
+    pose proof (CompileCorrect3Base.code_at_tail _ _ _ _ T3) as T4.
+    pose proof (CompileCorrect3Base.code_at_head _ _ _ _ T4) as HJZ.
+    pose proof (CompileCorrect3Base.code_at_tail _ _ _ _ T4) as T5.
+    pose proof (CompileCorrect3Base.code_at_app_l _ _ _ _ T5) as Hcb.
+    pose proof (CompileCorrect3Base.code_at_app_r _ _ _ _ T5) as T6.
+    pose proof (CompileCorrect3Base.code_at_head _ _ _ _ T6) as HRT.
+    pose proof (CompileCorrect3Base.code_at_head _ _ _ _ (CompileCorrect3Base.code_at_tail _ _ _ _ T6)) as HLB.
+    set (frc := mkfr (Some ExDivision) F fs).
+    set (h3 := ((h ++ [exn_no ex']) ++ [exn_no ExDivision]) ++ [b2z (exn_no ex' =? 1)]).
+    assert (Hlenseg : length (clause_seg FT fd (ex', body)) = (length cb + 7)%nat).
+    { unfold clause_seg. cbn [fst snd]. fold cb. cbn [length]. rewrite app_length. cbn [length]. lia. }
+    assert (Hpro : star prog (mk A (top ++ astk) h o {| r_fp := fp; r_exc := Some ExDivision; r_frames := F :: fs |})
+                        (mk (S (S (S (S A)))) (length ((h ++ [exn_no ex']) ++ [exn_no ExDivision]) :: astk) h3 o frc)).
+    { eapply star_step. { rewrite <- Hnp in HCS. rewrite (step_clear_stack _ prog A top astk h o HCS). reflexivity. }
+      change (set_fp {| r_fp := fp; r_exc := Some ExDivision; r_frames := F :: fs |} 0) with frc.
+      eapply star_step; [apply (step_int frc prog (S A) astk h o (exn_no ex') 0); exact HIN|].
+      eapply star_step; [apply (step_push_except frc _ _ _ _ _ ExDivision HPE); reflexivity|].
+      apply star_one.
+      rewrite (step_binop frc prog (S (S (S A))) astk ((h ++ [exn_no ex']) ++ [exn_no ExDivision]) o Eq
+                 (length (h ++ [exn_no ex'])) (length h) (exn_no ex') (exn_no ExDivision) eq_refl HEQ).
+      - reflexivity.
+      - rewrite nth_error_app1 by (rewrite app_length; simpl; lia).
+        rewrite nth_error_app2, Nat.sub_diag by lia. reflexivity.
+      - rewrite nth_error_app2, Nat.sub_diag by lia. reflexivity. }
+    assert (HMS3 : MS m st h3) by (unfold h3; repeat apply MS_heap_app; exact HMS).
+    assert (Hp3 : nth_error h3 (length ((h ++ [exn_no ex']) ++ [exn_no ExDivision])) = Some (b2z (exn_no ex' =? 1))).
+    { unfold h3. rewrite nth_error_app2, Nat.sub_diag by lia. reflexivity. }
+    rewrite exn_match_no in He.
+    assert (Hpost : fsegs FT fd = (pre ++ [clause_seg FT fd (ex', body)]) ++ tail_segs fd t).
+    { rewrite <- app_assoc. exact Hsegs'. }
+    assert (Hcs' : forall c, In c t -> items_F lv (param_names (fd_params fd)) (snd c) = true).
+    { intros c Hc. apply Hcs. right. exact Hc. }
+    assert (HAnext : (fa + length (concat (pre ++ [clause_seg FT fd (ex', body)])) = S (S (S (S (S (S (S A))))) + length cb))%nat).
+    { rewrite concat_snoc_len, Hlenseg. fold A. lia. }
+    destruct (exn_no ex' =? 1) eqn:Em.
+    + (* the clause matches *)
+      assert (Hin : star prog (mk A (top ++ astk) h o {| r_fp := fp; r_exc := Some ExDivision; r_frames := F :: fs |})
+                         (mk (S (S (S (S (S A))))) astk h3 o frc)).
+      { eapply star_snoc; [exact Hpro|]. eapply (step_jumpz_nonzero frc); [exact HJZ | exact Hp3 | simpl; lia]. }
+      destruct (eval_items genv j penv st body None) as [r1 st1] eqn:Eb.
+      pose proof (clause_block k IHi kidx fd Hk j body penv st r1 st1 ltac:(lia) Eb (Hcs (ex', body) (or_introl eq_refl))
+                    prog (S (S (S (S (S A))))) astk h3 o m cs0 (Some ExDivision) F fs (conj Hcb Hpo) Hfok Hb HF Hg HMS3 Hout) as Hx.
+      fold cb frc in Hx.
+      destruct r1 as [c|ex| |]; simpl in Hx.
+      * inv He. simpl.
+        destruct Hx as (s1 & m1 & a & Hst1 & Hip1 & Hstk1 & Hm1 & HMS1 & Hext1 & Hout1 & Hfr1).
+        destruct s1 as [ip1 stk1 h1 o1 fr1]; simpl in Hip1, Hstk1, HMS1, Hout1, Hfr1; subst ip1 stk1 fr1.
+        exists h1, o1, m1, a. split; [|auto].
+        eapply star_trans; [exact Hin|]. eapply star_snoc; [exact Hst1|]. apply step_ret_frame. exact HRT.
+      * destruct Hx as (-> & s1 & fip & m1 & fp' & Hst1 & Hrng & Hip1 & Hfr1 & Hrt & (t0 & top' & Hstk1) & Hout1 & HMS1 & Hext1).
+        destruct s1 as [ip1 stk1 h1 o1 fr1]; simpl in Hip1, Hstk1, Hout1, Hfr1, Hrt, HMS1; subst stk1 o1 fr1.
+        rewrite (po_tab _ Hpo kidx fd pre _ _ fip Hk Hsegs') in Hip1
+          by (fold fa; fold A; rewrite Hlenseg; lia).
+        fold fa in Hip1. fold A in Hip1. rewrite Hlenseg in Hip1.
+        replace (A + (length cb + 7) - 1)%nat with (S (S (S (S (S (S A)))) + length cb)) in Hip1 by lia. subst ip1.
+        assert (Hfp' : t = [] -> fd_catch_all fd = None -> fp' = 0%nat).
+        { intros -> Hn. apply Hrt. unfold is_rethrow. rewrite HLB.
+          unfold tail_segs in T6. rewrite Hn in T6. cbn [map app concat] in T6.
+          rewrite (CompileCorrect3Base.code_at_head _ _ _ _
+                     (CompileCorrect3Base.code_at_tail _ _ _ _ (CompileCorrect3Base.code_at_tail _ _ _ _ T6))).
+          reflexivity. }
+        pose proof (IHcs (pre ++ [clause_seg FT fd (ex', body)]) Hpost Hcs' Hall j penv st1 r st' ltac:(lia) He
+                      prog (t0 :: top') astk h1 (out st1) m1 cs0 fp' F fs Hpo Hb
+                      (Forall2_ext_m _ _ _ _ Hext1 HF)
+                      (fun g gd Hgd => match Hg g gd Hgd with ex_intro _ cg (conj Hl Hm) =>
+                                         ex_intro _ cg (conj Hl (ext_nth _ _ _ _ Hext1 Hm)) end)
+                      HMS1 eq_refl Hfp') as Hrest.
+        fold fa in Hrest. rewrite HAnext in Hrest.
+        eapply act_done_star; [| exact Hext1 | exact Hrest].
+        eapply star_trans; [exact Hin|]. eapply star_snoc; [exact Hst1|].
+        apply (step_label _ prog (S (S (S (S (S (S A)))) + length cb))). exact HLB.
+      * inv He. exact I.
+      * inv He. exact I.
+    + (* another exception is named: the next clause *)
+      assert (Hjz : star prog (mk A (top ++ astk) h o {| r_fp := fp; r_exc := Some ExDivision; r_frames := F :: fs |})
+                         (mk (S (S (S (S (S (S (S A))))) + length cb)) astk h3 o frc)).
+      { eapply star_snoc; [exact Hpro|].
+        eapply (step_jumpz_to frc); [exact HJZ | exact Hp3 | unfold len; lia]. }
+      pose proof (IHcs (pre ++ [clause_seg FT fd (ex', body)]) Hpost Hcs' Hall j penv st r st' ltac:(lia) He
+                    prog [] astk h3 o m cs0 0%nat F fs Hpo Hb HF Hg HMS3 Hout (fun _ _ => eq_refl)) as Hrest.
+      fold fa in Hrest. rewrite HAnext in Hrest. cbn [app] in Hrest.
+      eapply act_done_star; [exact Hjz | apply ext_refl | exact Hrest].
+Qed.
+
+Lemma seg_shape_body : forall (i x y z : rinstr) (b rest : list rinstr),
+  (i :: b ++ [x; y; z]) ++ rest = i :: b ++ x :: y :: z :: rest.
+Proof. intros. simpl. rewrite <- app_assoc. reflexivity. Qed.
+
+(* one activation: FUNC_DEF; the body; LINE; RET — or a fault: the catch clauses, or LABEL; RETHROW *)
+Lemma body_of_specs : forall k, items_spec k -> titems_spec k -> body_spec k.
+Proof.
+  intros k IHi IHti kidx fd Hk cs penv st r st' Hb He prog astk h o m e0 F fs Hpo HMS Hout HF Hg s0.
   assert (Hfd : In fd (g_funcs G)) by (eapply nth_error_In; eauto).
   pose proof (funcs_ok fd Hfd) as Hfok.
-  pose proof (po_fun _ Hpo kidx fd Hk) as Hcode. unfold compile_func, compile_body in Hcode.
+  pose proof (po_fun _ Hpo kidx fd Hk) as Hcode.
   set (fa := faddr (nstd + kidx)) in *.
   set (frc := mkfr e0 F fs) in *.
-  set (body := Compile3.cexpr FT (Some (fd_name fd)) true 0 (param_env (fd_params fd) 0) (EBlock (fd_body fd))) in *.
-  pose proof (CompileCorrect3Base.code_at_head _ _ _ _ Hcode) as HFD.
-  pose proof (CompileCorrect3Base.code_at_tail _ _ _ _ Hcode) as Hc1.
+  assert (Hsegs : fsegs FT fd = [] ++ body_seg FT fd :: tail_segs fd (fd_catches fd)) by reflexivity.
+  pose proof (seg_at prog fa fd [] _ _ Hcode Hsegs) as Hseg. cbn [concat length] in Hseg.
+  rewrite Nat.add_0_r in Hseg. unfold body_seg in Hseg. rewrite seg_shape_body in Hseg.
+  set (body := compile_body FT fd) in *.
+  pose proof (CompileCorrect3Base.code_at_head _ _ _ _ Hseg) as HFD.
+  pose proof (CompileCorrect3Base.code_at_tail _ _ _ _ Hseg) as Hc1.
   pose proof (CompileCorrect3Base.code_at_app_l _ _ _ _ Hc1) as Hbody.
   pose proof (CompileCorrect3Base.code_at_app_r _ _ _ _ Hc1) as Hc2.
   pose proof (CompileCorrect3Base.code_at_head _ _ _ _ Hc2) as HLN.
   pose proof (CompileCorrect3Base.code_at_head _ _ _ _ (CompileCorrect3Base.code_at_tail _ _ _ _ Hc2)) as HRT.
-  pose proof (CompileCorrect3Base.code_at_head _ _ _ _
-               (CompileCorrect3Base.code_at_tail _ _ _ _ (CompileCorrect3Base.code_at_tail _ _ _ _ Hc2))) as HLB.
-  pose proof (CompileCorrect3Base.code_at_head _ _ _ _
-               (CompileCorrect3Base.code_at_tail _ _ _ _ (CompileCorrect3Base.code_at_tail _ _ _ _
-               (CompileCorrect3Base.code_at_tail _ _ _ _ Hc2)))) as HRW.
-  assert (Hlenf : length (compile_func FT fd) = (length body + 5)%nat).
-  { unfold compile_func, compile_body. fold body. cbn [length]. rewrite app_length. cbn [length]. lia. }
-  assert (Hpc : pcode_at prog (S fa) body).
-  { split; [exact Hbody|]. split; [exact Hpo|]. exists kidx, fd. split; [exact Hk|]. fold fa. rewrite Hlenf. lia. }
-  assert (He' : eval genv (S k) penv st (EBlock (fd_body fd)) = (r, st')) by (rewrite eval_EBlock; exact He).
-  assert (HFb : in_F lv (param_names (fd_params fd)) (EBlock (fd_body fd)) = true).
-  { unfold Compile3.func_in_F in Hfok. apply andb_true_iff in Hfok; destruct Hfok as [Hfok _].
-    apply andb_true_iff in Hfok; destruct Hfok as [Hfok _]. exact Hfok. }
-  pose proof (param_env_match fd cs penv astk m Hfok Hb HF Hg) as Hem.
-  assert (Hlen : Z.of_nat (length astk) = 0 + Z.of_nat (length (fd_params fd))).
-  { assert (length cs = length astk) by (clear - HF; induction HF; simpl; congruence).
-    assert (length cs = length (fd_params fd)).
-    { clear - Hb. revert cs penv Hb. induction (fd_params fd) as [|[[x v] t] ps IH]; intros cs penv Hb;
-        destruct cs; simpl in Hb; try discriminate; [reflexivity|].
-      destruct (bind_params ps cs) eqn:E; [|discriminate]. simpl. f_equal. eapply IH; eauto. }
-    lia. }
+  pose proof (CompileCorrect3Base.code_at_tail _ _ _ _ (CompileCorrect3Base.code_at_tail _ _ _ _ Hc2)) as Hc3.
+  pose proof (CompileCorrect3Base.code_at_head _ _ _ _ Hc3) as HLB.
+  pose proof (CompileCorrect3Base.code_at_tail _ _ _ _ Hc3) as Hc4.
+  assert (Hlenseg : length (body_seg FT fd) = (length body + 4)%nat).
+  { unfold body_seg. fold body. cbn [length]. rewrite app_length. cbn [length]. lia. }
   assert (H0 : star prog s0 (mk (S fa) astk h o frc)).
   { apply star_one. apply (step_func_def frc). exact HFD. }
-  pose proof (tcase_EBlock k (fd_body fd) IHi kidx fd Hk penv st r st' He' (param_names (fd_params fd)) HFb prog (S fa) 0
-                (param_env (fd_params fd) 0) astk h o m e0 F fs Hpc HMS Hout Hem Hlen) as Hx.
-  fold body frc in Hx.
-  destruct r as [c|ex| |]; auto.
-  - destruct Hx as [(s1 & m1 & a & Hst1 & Hip1 & Hstk1 & Hm1 & HMS1 & Hext1 & Hout1 & Hfr1) | (h' & o' & m' & a & H1 & H2 & H3 & H4 & H5)].
-    + destruct s1 as [ip1 stk1 h1 o1 fr1]; simpl in Hip1, Hstk1, HMS1, Hout1, Hfr1; subst ip1 stk1 fr1.
+  assert (Htab : forall i, (S fa <= i < S fa + length body)%nat ->
+                   hsearch (x_tab X) i 0 = (S (S (S fa + length body)))%nat).
+  { intros i Hi. rewrite (po_tab _ Hpo kidx fd [] _ _ i Hk Hsegs) by (fold fa; cbn [concat length]; rewrite Hlenseg; lia).
+    fold fa. cbn [concat length]. rewrite Hlenseg. lia. }
+  assert (HFb : items_F lv (param_names (fd_params fd)) (fd_body fd) = true).
+  { unfold Compile3.func_in_F in Hfok. apply andb_true_iff in Hfok; destruct Hfok as [Hfok _].
+    apply andb_true_iff in Hfok; destruct Hfok as [Hfok _]. exact Hfok. }
+  unfold call_body in He.
+  destruct (eval_items genv k penv st (fd_body fd) None) as [rb st3] eqn:Eb.
+  destruct (no_catch fd) eqn:Enc.
+  - (* no catch clauses: the body is in tail position; a fault leaves through LABEL; RETHROW *)
+    assert (Hc12 : fd_catches fd = [] /\ fd_catch_all fd = None).
+    { unfold no_catch in Enc. destruct (fd_catches fd); [destruct (fd_catch_all fd); [discriminate | auto] | discriminate]. }
+    destruct Hc12 as [C1 C2].
+    assert (HRW : nth_error prog (S (S (S (S fa + length body)))) = Some (ins0 BYTECODE_RETHROW)).
+    { unfold tail_segs in Hc4. rewrite C1, C2 in Hc4. cbn [map app concat] in Hc4.
+      exact (CompileCorrect3Base.code_at_head _ _ _ _ Hc4). }
+    assert (Hpc : pcode_at prog (S fa) body) by (split; [exact Hbody | exact Hpo]).
+    assert (He' : eval genv (S k) penv st (EBlock (fd_body fd)) = (rb, st3)) by (rewrite eval_EBlock; exact Eb).
+    pose proof (param_env_match fd cs penv astk m Hfok Hb HF Hg) as Hem.
+    assert (Hlen : Z.of_nat (length astk) = 0 + Z.of_nat (length (fd_params fd))).
+    { rewrite <- (Forall2_len _ _ _ _ _ HF), (bind_params_length _ _ _ Hb). lia. }
+    pose proof (tcase_EBlock k (fd_body fd) IHti kidx fd Hk penv st rb st3 He' (param_names (fd_params fd)) HFb prog (S fa) 0
+                  (param_env (fd_params fd) 0) astk h o m e0 F fs Hpc HMS Hout Hem Hlen) as Hx.
+    unfold compile_body in body. fold body frc in Hx.
+    destruct rb as [c|ex| |].
+    + inv He. simpl.
+      destruct Hx as [(s1 & m1 & a & Hst1 & Hip1 & Hstk1 & Hm1 & HMS1 & Hext1 & Hout1 & Hfr1) | (h' & o' & m' & a & H1 & H2 & H3 & H4 & H5)].
+      * destruct s1 as [ip1 stk1 h1 o1 fr1]; simpl in Hip1, Hstk1, HMS1, Hout1, Hfr1; subst ip1 stk1 fr1.
+        exists h1, o1, m1, a. split; [|auto].
+        eapply star_trans; [exact H0|]. eapply star_trans; [exact Hst1|].
+        eapply star_step; [apply (step_line frc); exact HLN|].
+        apply star_one. apply step_ret_frame. exact HRT.
+      * exists h', o', m', a. split; [eapply star_trans; eauto | auto].
+    + rewrite C1, C2 in He.
+      destruct k as [|k']; [rewrite eval_items_O in Eb; discriminate|]. rewrite handlers_nil in He. inv He. simpl.
+      destruct Hx as (-> & [(s1 & fip & m1 & fp' & Hst1 & Hrng & Hip1 & Hfr1 & Hrt & (t & top & Hstk1) & Hout1 & HMS1 & Hext1)
+                           | (h' & t & m' & H1 & H2 & H3)]); (split; [reflexivity|]).
+      * destruct s1 as [ip1 stk1 h1 o1 fr1]; simpl in Hip1, Hstk1, Hout1, Hfr1, Hrt, HMS1; subst stk1 o1 fr1.
+        rewrite Htab in Hip1 by lia. subst ip1.
+        assert (Hir : is_rethrow prog (S (S (S fa + length body))) = true).
+        { unfold is_rethrow. rewrite HLB, HRW. reflexivity. }
+        specialize (Hrt Hir). subst fp'.
+        destruct (step_rethrow_any prog (S (S (S (S fa + length body)))) (t :: top ++ astk) h1 (out st') (Some ExDivision) F fs HRW)
+          as (t1 & Hrw).
+        exists h1, t1, m1. split; [|split; [exact HMS1 | exact Hext1]].
+        eapply star_trans; [exact H0|]. eapply star_trans; [exact Hst1|].
+        eapply star_step; [apply (step_label _ prog (S (S (S fa + length body)))); exact HLB|].
+        apply star_one. exact Hrw.
+      * exists h', t, m'. split; [eapply star_trans; eauto | auto].
+    + inv He. exact I.
+    + inv He. exact I.
+  - (* catch clauses: no self tail call, the body is compiled like any block *)
+    unfold Compile3.func_in_F in Hfok. apply andb_true_iff in Hfok; destruct Hfok as [Hfok1 Hcl].
+    rewrite Enc in Hcl. cbn [orb] in Hcl.
+    apply andb_true_iff in Hcl; destruct Hcl as [Hcl Hall].
+    apply andb_true_iff in Hcl; destruct Hcl as [Hcl Hcs].
+    apply andb_true_iff in Hcl; destruct Hcl as [_ Hnst].
+    assert (Hbd : body = clause_body FT fd (fd_body fd)).
+    { unfold body, clause_body. apply (no_self_tail_body FT fd Hnst). }
+    rewrite Hbd in *.
+    pose proof (funcs_ok fd Hfd) as Hfok.
+    pose proof (clause_block k IHi kidx fd Hk k (fd_body fd) penv st rb st3 (le_n _) Eb HFb prog (S fa) astk h o m cs
+                  e0 F fs (conj Hbody Hpo) Hfok Hb HF Hg HMS Hout) as Hx. fold frc in Hx.
+    set (cb := clause_body FT fd (fd_body fd)) in *.
+    destruct rb as [c|ex| |]; simpl in Hx.
+    + inv He. simpl.
+      destruct Hx as (s1 & m1 & a & Hst1 & Hip1 & Hstk1 & Hm1 & HMS1 & Hext1 & Hout1 & Hfr1).
+      destruct s1 as [ip1 stk1 h1 o1 fr1]; simpl in Hip1, Hstk1, HMS1, Hout1, Hfr1; subst ip1 stk1 fr1.
       exists h1, o1, m1, a. split; [|auto].
       eapply star_trans; [exact H0|]. eapply star_trans; [exact Hst1|].
       eapply star_step; [apply (step_line frc); exact HLN|].
       apply star_one. apply step_ret_frame. exact HRT.
-    + exists h', o', m', a. split; [eapply star_trans; eauto | auto].
-  - destruct Hx as (-> & [(s1 & fip & Hst1 & Hrng & Hip1 & Hfr1 & (t & top & Hstk1) & Hout1) | (h' & t & H1)]);
-      (split; [reflexivity|]).
-    + destruct s1 as [ip1 stk1 h1 o1 fr1]; simpl in Hip1, Hstk1, Hout1, Hfr1; subst stk1 o1 fr1.
-      rewrite (po_tab _ Hpo kidx fd fip Hk) in Hip1 by (fold fa; rewrite Hlenf; lia).
-      fold fa in Hip1. rewrite Hlenf in Hip1.
-      replace (fa + (length body + 5) - 2)%nat with (S (S (S fa + length body))) in Hip1 by lia. subst ip1.
-      exists h1, t.
-      eapply star_trans; [exact H0|]. eapply star_trans; [exact Hst1|].
-      eapply star_step; [apply (step_label (set_exc frc ExDivision)); exact HLB|].
-      apply star_one. unfold set_exc, frc, mkfr. cbn [r_fp r_exc r_frames].
-      apply step_rethrow_frame. exact HRW.
-    + exists h', t. eapply star_trans; eauto.
+    + destruct Hx as (-> & s1 & fip & m1 & fp' & Hst1 & Hrng & Hip1 & Hfr1 & Hrt & (t & top & Hstk1) & Hout1 & HMS1 & Hext1).
+      destruct s1 as [ip1 stk1 h1 o1 fr1]; simpl in Hip1, Hstk1, Hout1, Hfr1, Hrt, HMS1; subst stk1 o1 fr1.
+      rewrite Htab in Hip1 by lia. subst ip1.
+      assert (Hsegs2 : fsegs FT fd = [body_seg FT fd] ++ tail_segs fd (fd_catches fd)) by reflexivity.
+      assert (Hcs' : forall c, In c (fd_catches fd) -> items_F lv (param_names (fd_params fd)) (snd c) = true).
+      { intros c Hc. rewrite forallb_forall in Hcs. exact (Hcs c Hc). }
+      assert (Hall' : forall b, fd_catch_all fd = Some b -> items_F lv (param_names (fd_params fd)) b = true).
+      { intros b Hbq. rewrite Hbq in Hall. exact Hall. }
+      assert (Hfp' : fd_catches fd = [] -> fd_catch_all fd = None -> fp' = 0%nat).
+      { intros C1 C2. unfold no_catch in Enc. rewrite C1, C2 in Enc. discriminate. }
+      pose proof (handlers_run k IHi kidx fd Hk Hfok (fd_catches fd) [body_seg FT fd] Hsegs2 Hcs' Hall' k penv st3 r st'
+                    (le_n _) He prog (t :: top) astk h1 (out st3) m1 cs fp' F fs Hpo Hb
+                    (Forall2_ext_m _ _ _ _ Hext1 HF)
+                    (fun g gd Hgd => match Hg g gd Hgd with ex_intro _ cg (conj Hl Hm) =>
+                                       ex_intro _ cg (conj Hl (ext_nth _ _ _ _ Hext1 Hm)) end)
+                    HMS1 eq_refl Hfp') as Hrest.
+      fold fa in Hrest. cbn [concat] in Hrest. rewrite app_nil_r, Hlenseg in Hrest.
+      replace (fa + (length cb + 4))%nat with (S (S (S (S fa + length cb)))) in Hrest by lia.
+      fold (act_done prog s0 m r st' F fs).
+      eapply act_done_star; [| exact Hext1 | exact Hrest].
+      eapply star_trans; [exact H0|]. eapply star_snoc; [exact Hst1|].
+      apply (step_label _ prog (S (S (S fa + length cb)))). exact HLB.
+    + inv He. exact I.
+    + inv He. exact I.
 Qed.
 
 (* ---- from the statements at given registers to the general ones ------------------------------ *)
@@ -2503,7 +2851,7 @@ Proof.
     { apply while_spec_of_at. intro fr. apply while_step; assumption. }
     assert (IHd' : dowhile_spec (S k)).
     { apply dowhile_spec_of_at. intro fr. apply dowhile_step; assumption. }
-    pose proof (body_of_titems k IHti) as IHb.
+    pose proof (body_of_specs k IHi IHti) as IHb.
     assert (IHe' : expr_spec (S k)) by (apply expr_step; assumption).
     split; [exact IHe'|]. split; [apply items_spec_of_at; intro fr; apply items_step; assumption|].
     split; [exact IHw'|]. split; [exact IHd'|].
@@ -2511,7 +2859,7 @@ Proof.
 Qed.
 
 Lemma body_all : forall k, body_spec k.
-Proof. intros k. apply body_of_titems. apply (spec_all k). Qed.
+Proof. intros k. apply body_of_specs; apply (spec_all k). Qed.
 
 (* ---- compile_expr_correct on the machine with frames ------------------------------------------- *)
 
@@ -2527,9 +2875,11 @@ Theorem compile_expr_correct_frames : forall fuel e env st r st' sc,
         MS m' st' (v_heap s') /\ ext m m' /\ v_out s' = out st' /\ v_fr s' = v_fr s
     | RExc ex =>
       ex = ExDivision /\
-      exists s' fip, star prog s s' /\ (pc <= fip < pc + length (compile_expr L ce e))%nat /\
-        v_ip s' = hsearch (x_tab X) fip 0 /\ v_fr s' = set_exc (v_fr s) ExDivision /\
-        (exists t top, v_stk s' = t :: top ++ v_stk s) /\ v_out s' = out st'
+      exists s' fip m' fp', star prog s s' /\ (pc <= fip < pc + length (compile_expr L ce e))%nat /\
+        v_ip s' = hsearch (x_tab X) fip 0 /\ v_fr s' = set_exc (set_fp (v_fr s) fp') ExDivision /\
+        (is_rethrow prog (v_ip s') = true -> fp' = r_fp (v_fr s)) /\
+        (exists t top, v_stk s' = t :: top ++ v_stk s) /\ v_out s' = out st' /\
+        MS m' st' (v_heap s') /\ ext m m'
     | _ => True
     end.
 Proof.
